@@ -1,5 +1,5 @@
 """A small translator from a subset of Python (the arithmetic / bit-twiddling cores of han/*.py) to Lean 4 terms.
-Its output, lean/Amshan/GeneratedCode{Fcs,BackOff,P1,Hdlc,HdlcReader,Auto,Proto}.lean, is REGENERATED from the working tree on every
+Its output, lean/Amshan/GeneratedCode{Fcs,BackOff,P1,Hdlc,HdlcReader,HdlcRead,P1Read,Auto,Proto}.lean, is REGENERATED from the working tree on every
 run; Props/*Gen.lean prove each generated definition equal to the hand-written model, so for these functions
 the tie between model and code is a kernel-checked theorem about a mechanical translation of the source, not a
 sample.
@@ -87,10 +87,54 @@ LOOPS WITH EARLY EXITS, EXCEPTIONS, LISTS OF OBJECTS (AutoDecoder.decode_message
     in the iteration (see `is_move`); the items of a list are taken to be pairwise distinct objects.  `return` inside such
     a loop, re-binding L inside it, and `clear()` / `append` on the list a plain loop iterates over are rejected;
   * the truth value of an object needs `register_object(.., truthy=True)` (no `__bool__` / `__len__`: checked in `generate`
-    for the reader classes): `if self._selected_reader:` is `is not None`."""
+    for the reader classes): `if self._selected_reader:` is `is not None`.  An object with a configured `__len__` (and no
+    `__bool__`: checked in `generate` for HdlcFrame) is true when its length is not 0 (`if not self._frame:` is `None or empty`).
+
+BUFFER LEVEL (the `_ReaderBuffer` classes, HdlcFrameReader.read, ModeDReader.read; groups HdlcRead, P1Read):
+  * `while <condition>:` and `while True:` with `break` / `continue` / `return`, followed by more statements: an auxiliary
+    definition by recursion on fuel, `if c then <body; recursive call> else <what follows the loop>` (`continue`: the recursive
+    call; `break`: what follows).  Its state: the names the body may assign, pruned to those that something reads (a
+    temporary of one iteration is no state; a name the body does not assign keeps its value, a term over the parameters).
+    Out of fuel it answers its argument `oof`; `Fn.fuel` is a stated measure of the state on entry, and the theorem is
+    stated for every larger fuel and every `oof`.  (`loop_state="all"`: the older shape - all locals - of hdlcGetAddress.loop1.)
+  * ints that may be negative (type tag `sint`, Lean `Int`): `-k`, `x.find(v)` / `x.find(v, start)` (`GenRt.find` /
+    `findFrom`: -1 when absent), `+ - *` and all comparisons with them (on `Int`; with a literal: `s < k` or its negation),
+    slices with such a bound (`GenRt.sliceFrom` / `slice`: Python's rule for negative bounds and clamping).  A signed value is
+    used as a Nat only where it cannot be negative by construction (`find(..) + k`, k >= 1: `Int.toNat`); else rejected.
+  * lists: `x.extend(y)`, `x += y`, `x + y`, `[a, b]`, `x += [a]` (is `x.append(a)`), `del x[:n]` (is `x = x[n:]`); annotated
+    assignments (`x: list[C] = []` types the list); an Optional byte string is used as b"" where it is indexed / sliced;
+  * an attribute that holds an object OF A TRANSLATED CLASS (`self._buffer`): `objmethods` maps its methods and properties to
+    the GENERATED definitions of that class (`depends`: when one of them is untranslatable, so is the user);
+  * `L.append(self.a)` (`cast` or not) for an Optional object attribute, in a function that changes objects in place, is a second
+    reference: accepted as a MOVE when the next statement (calls of methods of other object attributes aside) re-binds self.a
+    to a fresh object - directly or as the first thing a straight-line translated method does (see `append_is_move`); objects
+    of a type without configured object-changing methods may be appended freely;
+  * `if [not] self.m():` for a translated method is `t = self.m()`, `if [not] t:`; a pure property of `self` (`inline`:
+    `self.is_in_hunt_mode`) is the one expression its body returns, in the current state;
+  * `raisefns`: a class / function that may raise (`DataReadout(raw)`), as a statement `v = F(args)`: `match F args with ..`;
+    `listmethods`: methods of byte strings mapped to lean functions (`isascii()`, `decode("ascii")`: total, the theorems
+    show the guard).
+
+HELPER METHODS THAT THE CONFIGURATION DOES NOT NAME, READ-ONLY LOCAL ALIASES (so that extracting statements into a method of the
+same class, or naming an attribute in a local, raises no alarm; see the comment before `Fn.owner_class` and `Fn.resolve_aliases`):
+  * `self.h(args)` / the property `self.p` for a method / property of the SAME class (found through the class object) that no entry
+    of the configuration names is translated ON THE FLY at the place of the call, with the caller's configuration (the same record
+    for `self`, the same object members; named integer constants are resolved in the helper's module / class): its body is run
+    symbolically on the current state with its parameters bound to the arguments.  There is no generated definition for the
+    helper: the caller's term is the term of the statements in line, and the equivalence proofs never see the helper.
+    A helper that is a function of the environment (assignments, `if`s, guard clauses) is joined attribute by attribute, like an
+    `if` that only assigns (inside expressions it is a value; a Boolean value is written with and / or / not); a helper that
+    calls translated methods on some paths, or has a loop, is translated path by path (what follows the call is translated once
+    per return path), like an `if` with a `return`; a call statement of a helper without any effect (logging, temporaries for
+    logging) is a no-op.  Recursion, `return` inside a loop of a helper, an exception inside a helper, a list / object argument
+    of a state-changing helper and in-place changes through a parameter are rejected (Unsupported, as an unknown call);
+  * a local bound once, by `x = self.a` / `x = cast(C, self.a)` for a list / object attribute of the state, and read only in the
+    statements that follow it in its block, none of which (up to the last read) can re-bind the attribute, is read as `self.a`
+    itself.  Otherwise the rule above stays: a second name for a list / object that may be changed in place is rejected."""
 from __future__ import annotations
 
 import ast
+import copy
 import inspect
 import re
 import textwrap
@@ -155,6 +199,8 @@ MAX_SIZE = 4000          # nodes of one translated function: `if`s with a return
 OBJECTS = set()          # tags of opaque object types (register_object)
 TRUTHY = set()           # ... whose instances are always true
 LEAN_TY["list:list"] = "List (List Nat)"       # a list of byte strings (a recorded queue of payloads)
+LEAN_TY["sint"] = "Int"                        # an int that may be negative (what `bytes.find` answers, `-1`)
+LEAN_TY["text"] = "List Nat"                   # a str (its code points): only passed on to configured functions
 BUILTIN_CALLS = {"len", "cast", "bool", "bytes", "bytearray", "max", "min", "range", "isinstance", "str", "int", "any", "all", "list"}
 
 
@@ -168,6 +214,10 @@ class _NeedExit(Exception):
 # ("some", a) ("isSome", a) ("ogetD", a, default) ("tuple", [..]) ("range", lo, count)
 # ("rec", lean structure name, [(field, a) ..]) ("proj", a, "field" | "2.1")
 # ("nilof", list type) ("getq", l, i)  l[i]?   ("call", f, [args])  a callable value applied   ("ok", a) ("error", e)
+# ("cat", l, m)  l ++ m
+# ("again", head text, [state ..])   statement position: the recursive call of the auxiliary definition of a `while` loop
+# signed integers (type tag "sint", Lean Int): ("ilit", k) ("ofnat", a) ("ibin", op, a, b) ("ilt", a, b) ("ieq", a, b)
+# ("tonat", a)  a signed term that is known to be >= 0 (nonneg_sint), as a Nat
 # statement positions only:
 # ("yield", [..])   the new state of the enclosing fold
 # ("letfold", out ids, in ids, item id, types, body, inits, coll, rest)
@@ -177,7 +227,7 @@ class _NeedExit(Exception):
 # ("mopt", scrutinee, id, some branch, none branch)  ("mexc", scrutinee, ok id, ok branch, error id, error branch)
 TRUE, FALSE, NONE, NIL = ("true",), ("false",), ("none",), ("nil",)
 DEFAULT_IR = {"int": ("lit", 0), "bool": FALSE, "list": NIL, "optint": NONE, "optbool": NONE, "optlist": NONE,
-              "list:list": ("nilof", "list:list")}
+              "list:list": ("nilof", "list:list"), "sint": ("ilit", 0)}
 
 V = namedtuple("V", "ir type unbound")      # value of a python name: term, type tag, "may be unbound here"
 
@@ -223,7 +273,7 @@ def lit(n):
 
 def ckey(e):
     """rename-invariant order of operands: literals last, then by the canonical text (binders print as #id)"""
-    return (1 if e[0] == "lit" else 0, show(e, None))
+    return (1 if e[0] in ("lit", "ilit") else 0, show(e, None))
 
 
 def one_bit(e):
@@ -363,6 +413,23 @@ def mk_ite(c, a, b):
     return ("ite", c, a, b)
 
 
+def bool_term(e):
+    """a Boolean term without `if` at its root: `if c then a else false` is `c and a`, and so on (the value of a helper with guard
+    clauses - `if not c: return False` .. `return a` - is the term of the condition `c and a` that it stands for)"""
+    if e[0] != "ite":
+        return e
+    c, a, b = e[1], bool_term(e[2]), bool_term(e[3])
+    if b == FALSE:
+        return mk_and([c, a])
+    if a == FALSE:
+        return mk_and([mk_not(c), b])
+    if a == TRUE:
+        return mk_or([c, b])
+    if b == TRUE:
+        return mk_or([mk_not(c), a])
+    return mk_ite(c, a, b)
+
+
 def mk_is_some(a):
     if a == NONE:
         return FALSE
@@ -392,6 +459,67 @@ def mk_get(l, i):
     return ("getD", l, i)
 
 
+def mk_cat(a, b):
+    """a ++ b; `l ++ [x]` is the term of `l.append(x)`"""
+    if b in (NIL,) or b[0] == "nilof":
+        return a
+    if a in (NIL,) or a[0] == "nilof":
+        return b
+    if b[0] == "append1":
+        return ("append1", mk_cat(a, b[1]), b[2])
+    return ("cat", a, b)
+
+
+# Signed integers (Lean Int): the value of `x.find(..)` (-1: not found), `-k`, and arithmetic / comparisons with them.
+# Comparisons with a literal k are  s < k  or its negation (`s > k` is `not s < k+1`, `s >= k` is `not s < k`).
+def mk_ofnat(a):
+    return ("ilit", a[1]) if a[0] == "lit" else ("ofnat", a)
+
+
+def mk_ibin(op, a, b):
+    if a[0] == "ilit" and b[0] == "ilit":
+        return ("ilit", {"+": a[1] + b[1], "-": a[1] - b[1], "*": a[1] * b[1]}[op])
+    if op in ("+", "*") and ckey(b) < ckey(a):
+        a, b = b, a
+    return ("ibin", op, a, b)
+
+
+def mk_ilt(a, b):
+    if a[0] == "ilit" and b[0] == "ilit":
+        return TRUE if a[1] < b[1] else FALSE
+    if a[0] == "ilit":                         # k < s  is  not (s < k+1)
+        return ("not", ("ilt", b, ("ilit", a[1] + 1)))
+    return ("ilt", a, b)
+
+
+def mk_ieq(a, b):
+    if a[0] == "ilit" and b[0] == "ilit":
+        return TRUE if a[1] == b[1] else FALSE
+    if ckey(b) < ckey(a) or a[0] == "ilit":
+        a, b = b, a
+    return ("ieq", a, b)
+
+
+def nonneg_sint(e):
+    """is the signed term known to be >= 0?  A literal >= 0, a Nat, and `x.find(..) + k` for a literal k >= 1 (find answers
+    -1 at least: GenRt.find_ge / findFrom_ge), sums and products of such terms."""
+    if e[0] == "ilit":
+        return e[1] >= 0
+    if e[0] == "ofnat":
+        return True
+    if e[0] == "ibin" and e[1] == "+":
+        a, b = e[2], e[3]
+        for x, y in ((a, b), (b, a)):
+            if x[0] == "app" and x[1] in ("Amshan.GenRt.find", "Amshan.GenRt.findFrom") and y[0] == "ilit" and y[1] >= 1:
+                return True
+        return nonneg_sint(a) and nonneg_sint(b)
+    if e[0] == "ibin" and e[1] == "*":
+        return nonneg_sint(e[2]) and nonneg_sint(e[3])
+    if e[0] == "ite":
+        return nonneg_sint(e[2]) and nonneg_sint(e[3])
+    return False
+
+
 def tuple_path(j, n):
     """component j of a right-nested n-tuple, as a projection path: "1", "2.1", "2.2" for n = 3"""
     return ".".join(["2"] * j + (["1"] if j < n - 1 else []))
@@ -417,13 +545,13 @@ def mk_rec(name, fields):
 
 def children(e):
     t = e[0]
-    if t in ("lit", "true", "false", "none", "nil", "var", "const"):
+    if t in ("lit", "true", "false", "none", "nil", "var", "const", "ilit"):
         return []
-    if t == "bin":
+    if t in ("bin", "ibin"):
         return [e[2], e[3]]
     if t in ("and", "tuple", "yield"):
         return list(e[1])
-    if t == "app":
+    if t in ("app", "again"):
         return list(e[2])
     if t == "letfold":
         return [e[5]] + list(e[6]) + [e[7], e[8]]
@@ -512,8 +640,22 @@ def show(e, names):
         return e[1]
     if t == "bin":
         return f"({a(e[2])} {e[1]} {a(e[3])})"
+    if t == "ilit":
+        return f"({e[1]} : Int)"
+    if t == "ofnat":
+        return f"(Int.ofNat {a(e[1])})"
+    if t == "tonat":
+        return f"(Int.toNat {a(e[1])})"
+    if t == "ibin":
+        return f"({a(e[2])} {e[1]} {a(e[3])})"
+    if t == "ilt":
+        return f"decide ({a(e[1])} < {a(e[2])})"
+    if t == "ieq":
+        return f"({a(e[1])} == {a(e[2])})"
+    if t == "cat":
+        return f"({a(e[1])} ++ {a(e[2])})"
     if t == "not":
-        if names is not None and e[1][0] == "lt":                  # written with ≤
+        if names is not None and e[1][0] in ("lt", "ilt"):         # written with ≤
             return f"decide ({a(e[1][2])} ≤ {a(e[1][1])})"
         if names is not None and e[1][0] == "and" and 2 * sum(x[0] == "not" for x in e[1][1]) >= len(e[1][1]):
             return "(" + " || ".join(a(mk_not(x)) for x in e[1][1]) + ")"       # written with ||
@@ -526,7 +668,7 @@ def show(e, names):
         return f"decide ({a(e[1])} < {a(e[2])})"
     if t == "ite":
         return f"(if {show(e[1], names)} then {show(e[2], names)} else {show(e[3], names)})"
-    if t == "app":
+    if t in ("app", "again"):
         return "(" + " ".join([e[1]] + [a(x) for x in e[2]]) + ")"
     if t == "len":
         return f"{a(e[1])}.length"
@@ -592,6 +734,13 @@ def proj_path(j, n):
 
 
 Cx = namedtuple("Cx", "levels brk cont handler")
+# a method / property of the class of the translated function that the configuration does not name (see Fn.helper):
+# kind "method" | "static" | "class" | "property"; fn: its ast.FunctionDef; params: its python parameters (without self / cls)
+Helper = namedtuple("Helper", "name kind fn params obj")
+PURE_BUILTINS = {"len", "cast", "bool", "bytes", "bytearray", "max", "min", "isinstance", "str", "int", "any", "all", "list", "repr", "hex",
+                 "abs", "sum", "tuple", "sorted", "format", "ord", "chr", "round", "float", "type", "id", "range", "enumerate", "zip"}
+PURE_METHODS = {"hex", "decode", "isascii", "find", "format", "join", "upper", "lower", "strip", "startswith", "endswith", "count", "index",
+                "get", "keys", "values", "items", "copy", "isdigit", "encode", "rjust", "ljust", "zfill"}
 
 
 class Fn:
@@ -599,7 +748,8 @@ class Fn:
 
     def __init__(self, name, obj, params, ret, mapping=None, mutates=None, calls=None, callfns=None, fuel=None,
                  record=None, pyret=None, ghosts=None, effects=None, selfcalls=None, objmethods=None, constructors=None,
-                 once=None, tparams="", raises=False, catch=None, tables=None):
+                 once=None, tparams="", raises=False, catch=None, tables=None, depends=None, inline=None,
+                 raisefns=None, listmethods=None, loop_state=None):
         self.name = name                  # Lean name
         self.obj = obj                    # Python function object
         self.params = params              # [(lean name, lean type)]
@@ -643,6 +793,21 @@ class Fn:
         self.objmethods = objmethods or {}
         self.constructors = constructors or {}   # python dotted class, called without arguments -> (lean expr, type)
         self.once = set(once or ())       # python dotted callees (`calls`) that may occur once only, outside loops
+        # other translated functions whose GENERATED definitions the configuration names (`objmethods` of an object whose
+        # class is translated too): when one of them is untranslatable, so is this function
+        self.depends = list(depends or ())
+        # python dotted name of a pure property of the object (`self.is_in_hunt_mode`) -> its function: a read of it is the
+        # value of the ONE `return <expression>` its body consists of, in the current state
+        self.inline = inline or {}
+        # raisefns: python name of a class / function that may raise (`DataReadout(raw)`) -> (lean function answering
+        # `Except PyExc <type>`, [argument types], result type); used as a STATEMENT `v = F(args)` / `F(args)` / `return F(args)`
+        self.raisefns = raisefns or {}
+        # listmethods: method of a byte string (`x.isascii()`, `x.decode("ascii")`) -> (lean function, [argument types or a
+        # quoted string literal that the argument must be], result type); total, like indexing (the theorems state the guards)
+        self.listmethods = listmethods or {}
+        # loop_state="all": the auxiliary definition of a `while True:` loop without `break` gets ALL locals as its state
+        # (the shape of the first translated loop, hdlcGetAddress.loop1, which a theorem statement names)
+        self.loop_state_all = loop_state == "all"
         self.failed = False               # its translation raised: callers are untranslatable too
         self.aux = []                     # auxiliary definitions (loops): (head lines, state ids, body term)
         self.hints = {}                   # binder id -> name hint
@@ -657,6 +822,16 @@ class Fn:
         self.readonly_items = []          # variables of the enclosing loops that do not write their items back
         self.detached = {}                # list attribute that is being iterated by a loop that changes its items -> loop variable
         self.mutloops = []                # ... those loops: (loop variable, list attribute, ast.For)
+        # --- helper methods of the same class that the configuration does not name (see `helper`): translated on the fly, at the
+        # call site, with this function's configuration
+        self.helper_cache = {}            # python dotted name -> Helper | None
+        self.memo = {}                    # (analysis, helper name) -> bool
+        self.retk = None                  # inside a helper: what its `return` means (function of environment, term, type, value node)
+        self.in_helper = False
+        self.frozen = set()               # parameters of the helper that hold a list / an object of the caller: not changed in place
+        self.scope = None                 # the python function whose module / class resolves named constants (None: self.obj)
+        self.inlining = []                # names of the helpers being translated (recursion is rejected)
+        self.assigning = []               # ... being analysed by `assigned`
 
     # ---------------------------------------------------------------- binders
     def new_id(self, hint):
@@ -678,6 +853,8 @@ class Fn:
             return mk_oget(e, lit(0))
         if t == "bool":
             return mk_ite(e, lit(1), lit(0))
+        if t == "sint" and nonneg_sint(e):    # a signed value that cannot be negative (`x.find(v) + 1`)
+            return e[1] if e[0] == "ofnat" else lit(e[1]) if e[0] == "ilit" else ("tonat", e)
         raise Unsupported(f"cannot use {t} as int")
 
     def to_bool(self, e, t):
@@ -701,7 +878,19 @@ class Fn:
             return TRUE
         if t in OPT_BASE and OPT_BASE[t] in TRUTHY:
             return mk_is_some(e)
+        base = OPT_BASE.get(t, t)
+        m = self.objmethods.get(base, {}).get("__len__") if base in OBJECTS else None
+        if m is not None and not m[1] and m[2] == "int" and "__bool__" not in self.objmethods.get(base, {}):
+            # an object with a configured __len__ (and no __bool__): true when its length is not 0; None is false
+            nonempty = mk_lt(lit(0), ("app", m[0], [self.convert(e, t, base)]))
+            return nonempty if t == base else mk_and([mk_is_some(e), nonempty])
         raise Unsupported(f"cannot use {t} as bool")
+
+    def to_sint(self, e, t):
+        """a Python int as a Lean Int"""
+        if t == "sint":
+            return e
+        return mk_ofnat(self.to_int(e, t))
 
     def to_list(self, e, t):
         if t == "list":
@@ -717,6 +906,8 @@ class Fn:
             return e
         if e == NIL and te == "list" and elem_type(want) is not None:      # the literal `[]`
             return nil_of(want)
+        if te == "sint" and want == "int" and nonneg_sint(e):
+            return self.to_int(e, te)
         if want in OPT_BASE and te == "none":
             return NONE
         if want in OPT_BASE and te == OPT_BASE[want]:
@@ -733,7 +924,7 @@ class Fn:
     def int_constant(self, d):
         """value of `NAME`, `self.NAME`, `cls.NAME` or `ClassName.NAME` when that is a plain non-negative int constant of the
         function's module / class (a literal that was given a name); None otherwise"""
-        f = unwrap_fn(self.obj)
+        f = unwrap_fn(self.scope if self.scope is not None else self.obj)
         f = inspect.unwrap(f) if callable(f) else f
         glob = getattr(f, "__globals__", None)
         if not glob:
@@ -783,9 +974,22 @@ class Fn:
                 r = mk_eq(("some", a), b)
             elif ta in OPT_BASE or tb in OPT_BASE or ta in ("list", "none") or tb in ("list", "none"):
                 raise Unsupported(f"== between {ta} and {tb}")
+            elif "sint" in (ta, tb):
+                r = mk_ieq(self.to_sint(a, ta), self.to_sint(b, tb))
             else:
                 r = mk_eq(self.to_int(a, ta), self.to_int(b, tb))
             return r if isinstance(op, ast.Eq) else mk_not(r)
+        if "sint" in (ta, tb):                 # signed comparison (Lean Int)
+            x, y = self.to_sint(a, ta), self.to_sint(b, tb)
+            if isinstance(op, ast.Lt):
+                return mk_ilt(x, y)
+            if isinstance(op, ast.LtE):
+                return mk_not(mk_ilt(y, x))
+            if isinstance(op, ast.Gt):
+                return mk_ilt(y, x)
+            if isinstance(op, ast.GtE):
+                return mk_not(mk_ilt(x, y))
+            raise Unsupported(f"comparison {type(op).__name__}")
         x, y = self.to_int(a, ta), self.to_int(b, tb)
         if isinstance(op, ast.Lt):
             return mk_lt(x, y)
@@ -817,10 +1021,12 @@ class Fn:
                 if env[d].unbound:
                     raise Unsupported(f"local {d} may be unbound where it is read")
                 return env[d].ir, env[d].type
-            if d in self.mapping:
+            if d in self.mapping and ("." in d or not self.in_helper):      # (a parameter of the caller is no name of a helper)
                 return ("const", self.mapping[d][0]), self.mapping[d][1]
             if d in self.calls:
                 return ("const", self.calls[d][0]), self.calls[d][1]
+            if d in self.inline:
+                return self.expr(self.inline_body(d), env)
             om = self.object_member(d, env)
             if om is not None:                                     # a property of an object
                 recv, (lean, argts, rt) = om
@@ -832,6 +1038,9 @@ class Fn:
             k = self.int_constant(d)
             if k is not None:                                      # a named integer constant of the class or module
                 return lit(k), "int"
+            h = self.helper(d)
+            if h is not None and h.kind == "property":             # a property of the class that the configuration does not name
+                return self.helper_value(h, None, env)
             raise Unsupported(f"unknown name {d}")
         if isinstance(n, ast.BinOp):
             if type(n.op) not in BINOPS:
@@ -841,6 +1050,13 @@ class Fn:
                 return NIL, "list"
             a, ta = self.expr(n.left, env)
             b, tb = self.expr(n.right, env)
+            if isinstance(n.op, ast.Add) and elem_type(ta) is not None and elem_type(tb) is not None:      # l + m
+                t = unify(ta, tb)
+                return mk_cat(self.coerce(a, ta, t), self.coerce(b, tb, t)), t
+            if "sint" in (ta, tb):
+                if not isinstance(n.op, (ast.Add, ast.Sub, ast.Mult)):
+                    raise Unsupported(f"operator {type(n.op).__name__} on an int that may be negative")
+                return mk_ibin(BINOPS[type(n.op)], self.to_sint(a, ta), self.to_sint(b, tb)), "sint"
             if self.raises and isinstance(n.op, (ast.Mod, ast.FloorDiv)):
                 # ZeroDivisionError is not modelled: where exceptions matter, the divisor must be known to be positive -
                 # a literal, or the number of items of an enclosing `for .. in range(..)` loop (whose body runs only then)
@@ -850,6 +1066,8 @@ class Fn:
             return mk_bin(BINOPS[type(n.op)], self.to_int(a, ta), self.to_int(b, tb)), "int"
         if isinstance(n, ast.UnaryOp) and isinstance(n.op, ast.Not):
             return self.truth(n, env), "bool"
+        if self.neg_literal(n) is not None:                        # `-k`: a signed int
+            return ("ilit", -self.neg_literal(n)), "sint"
         if isinstance(n, ast.BoolOp):
             # `a and b` is one of its operands: a Bool only when all of them are
             if any(self.expr(v, env)[1] != "bool" for v in n.values):
@@ -873,7 +1091,7 @@ class Fn:
             return mk_ite(c, self.coerce(a, ta, t), self.coerce(b, tb, t)), t
         if isinstance(n, ast.Call):
             f = dotted(n.func)
-            if n.keywords:
+            if n.keywords and self.helper_call(n) is None:
                 raise Unsupported(f"keyword arguments in call {f}")
             if f == "len" and len(n.args) == 1 and dotted(n.args[0]) in self.tables and dotted(n.args[0]) not in env:
                 return ("const", "(" + self.tables[dotted(n.args[0])]["len"] + ")"), "int"
@@ -904,6 +1122,8 @@ class Fn:
                 return NIL, "list"
             if f in ("bytes", "bytearray") and len(n.args) == 1:                       # copy of a byte string
                 a, ta = self.expr(n.args[0], env)
+                if ta == "optlist":                                # total: None is used as b"" (python raises TypeError)
+                    a, ta = self.to_list(a, ta), "list"
                 if ta != "list":
                     raise Unsupported(f"{f}() of a {ta}")
                 return a, "list"
@@ -913,6 +1133,34 @@ class Fn:
                     raise Unsupported(f"call {f}: {len(n.args)} arguments, {len(argts)} expected")
                 args = [self.convert(*self.expr(x, env), want) for x, want in zip(n.args, argts)]
                 return (("app", lean, args) if args else ("const", "(" + lean + ")")), rt
+            if isinstance(n.func, ast.Attribute) and n.func.attr in self.listmethods and self.object_holder(f or "", env) is None:
+                lean, argts, rt = self.listmethods[n.func.attr]
+                l, tl = self.expr(n.func.value, env)
+                l = self.to_list(l, tl)
+                if len(argts) != len(n.args):
+                    raise Unsupported(f"call {n.func.attr}: {len(n.args)} arguments, {len(argts)} expected")
+                args = []
+                for x, want in zip(n.args, argts):
+                    if want.startswith("'"):                       # the argument must be this string literal (`decode("ascii")`)
+                        if not (isinstance(x, ast.Constant) and x.value == want.strip("'")):
+                            raise Unsupported(f"call {n.func.attr}: the argument must be {want}")
+                    else:
+                        args.append(self.convert(*self.expr(x, env), want))
+                return ("app", lean, [l] + args), rt
+            if isinstance(n.func, ast.Attribute) and n.func.attr == "find" and 1 <= len(n.args) <= 2 and self.object_holder(f or "", env) is None:
+                # bytes.find(octet[, start]): the position of the first such octet (from start on), -1 when there is none
+                l, tl = self.expr(n.func.value, env)
+                if tl != "list":
+                    raise Unsupported(f"find() of a {tl}")
+                v, tv = self.expr(n.args[0], env)
+                if tv != "int":
+                    raise Unsupported(f"find() of a {tv} in a byte string")
+                if len(n.args) == 1:
+                    return ("app", "Amshan.GenRt.find", [l, v]), "sint"
+                st, tst = self.expr(n.args[1], env)
+                if tst != "int":
+                    raise Unsupported(f"find() from a {tst}")
+                return ("app", "Amshan.GenRt.findFrom", [l, v, st]), "sint"
             if f in ("max", "min") and len(n.args) == 2:
                 a, ta = self.expr(n.args[0], env)
                 b, tb = self.expr(n.args[1], env)
@@ -932,9 +1180,14 @@ class Fn:
                 if len(argts) != len(n.args):
                     raise Unsupported(f"call {f}: {len(n.args)} arguments, {len(argts)} expected")
                 return ("app", lean, [recv] + [self.convert(*self.expr(x, env), want) for x, want in zip(n.args, argts)]), rt
+            h = self.helper_call(n)
+            if h is not None:                                      # a method of the class that the configuration does not name
+                return self.helper_value(h, n, env)
             raise Unsupported(f"call {f}")
         if isinstance(n, ast.Subscript):
             a, ta = self.expr(n.value, env)
+            if ta == "optlist":                                    # total: None is used as b"" (the theorems state the guards)
+                a, ta = self.to_list(a, ta), "list"
             if ta != "list":
                 raise Unsupported("subscript of a non-list")
             if isinstance(n.slice, ast.Slice):
@@ -946,7 +1199,16 @@ class Fn:
                     if n.slice.upper is not None:
                         raise Unsupported("slice with a negative start and an end")
                     return mk_drop(a, ("bin", "-", ("len", a), lit(k))), "list"
-                lo = self.to_int(*self.expr(n.slice.lower, env)) if n.slice.lower else lit(0)
+                lo_t = self.expr(n.slice.lower, env) if n.slice.lower else (lit(0), "int")
+                up_t = self.expr(n.slice.upper, env) if n.slice.upper is not None and self.neg_literal(n.slice.upper) is None else None
+                if lo_t[1] == "sint" or (up_t is not None and up_t[1] == "sint"):
+                    # a bound that may be negative: Python's slice (a negative bound counts from the end, all bounds are clamped)
+                    if n.slice.upper is None:
+                        return ("app", "Amshan.GenRt.sliceFrom", [a, self.to_sint(*lo_t)]), "list"
+                    if up_t is None:
+                        raise Unsupported("slice with a signed start and a negative literal end")
+                    return ("app", "Amshan.GenRt.slice", [a, self.to_sint(*lo_t), self.to_sint(*up_t)]), "list"
+                lo = self.to_int(*lo_t)
                 if n.slice.upper is None:
                     return mk_drop(a, lo), "list"
                 up = n.slice.upper
@@ -965,7 +1227,544 @@ class Fn:
             return mk_get(a, i), "int"
         if isinstance(n, ast.List) and not n.elts:
             return NIL, "list"
+        if isinstance(n, ast.List):                                # [a, b]: ints, or objects of one type
+            items = [self.expr(x, env) for x in n.elts]
+            if any(isinstance(x, ast.Starred) for x in n.elts):
+                raise Unsupported("starred list item")
+            if all(t in ("int",) for _, t in items):
+                res = NIL
+                for v, _ in items:
+                    res = ("append1", res, v)
+                return res, "list"
+            bases = {OPT_BASE.get(t, t) for _, t in items}
+            if len(bases) == 1 and next(iter(bases)) in OBJECTS and all(t in OBJECTS for _, t in items):
+                if self.inplace:
+                    raise Unsupported("a list of objects is built in a function that changes objects in place")
+                tag = "list:" + next(iter(bases))
+                res = nil_of(tag)
+                for v, _ in items:
+                    res = ("append1", res, v)
+                return res, tag
+            raise Unsupported("list literal of mixed / unsupported items")
         raise Unsupported(f"expression {type(n).__name__}")
+
+    def inline_body(self, d):
+        """the expression that the pure property `d` returns (its body: a docstring, logging, and one `return <expression>`)"""
+        obj = self.inline[d]
+        if isinstance(obj, _Missing):
+            raise Unsupported(f"{obj.path} does not exist in the source")
+        try:
+            fn = ast.parse(textwrap.dedent(inspect.getsource(unwrap_fn(obj)))).body[0]
+        except (OSError, TypeError, SyntaxError) as ex:
+            raise Unsupported(f"the source of {d} cannot be read: {ex}")
+        body = [x for x in fn.body if not self.skipped(x)]
+        if not (isinstance(fn, ast.FunctionDef) and [a.arg for a in fn.args.args] == ["self"] and len(body) == 1
+                and isinstance(body[0], ast.Return) and body[0].value is not None):
+            raise Unsupported(f"the property {d} is not one return statement")
+        if any(isinstance(x, ast.Call) and (dotted(x.func) in self.selfcalls or dotted(x.func) in self.effects) for x in ast.walk(body[0])):
+            raise Unsupported(f"the property {d} calls a state-changing method")
+        if any(isinstance(x, (ast.Attribute, ast.Name)) and dotted(x) == d for x in ast.walk(body[0])):
+            raise Unsupported(f"the property {d} reads itself")
+        return body[0].value
+
+    # ---------------------------------------------------------------- helper methods that the configuration does not name
+    # `self.<name>(args)` / `self.<name>` for a method / property of the SAME class (found through the class object) that no entry
+    # of the configuration names is translated ON THE FLY, at the place of the call, with this function's configuration (the same
+    # record for `self`, the same object members): the helper's body is executed symbolically in an environment that holds the
+    # current state and its parameters, so extracting statements into a helper method (or putting them back) does not change the
+    # term.  Three ways, chosen by the shape of the helper (the shapes mirror how the same statements are translated in line):
+    #   * a helper that is a function of the environment (assignments, `if`s, guard clauses with `return`: `joinable`) is JOINED:
+    #     the environments (and values) of its return paths are joined attribute by attribute, as for an `if` that only assigns;
+    #     the statement is `simple`.  A helper without effects is a value inside expressions (a property too);
+    #   * any other helper (it calls translated methods on some paths only, it has loops) is translated path by path: what follows
+    #     the call is translated once per return path (`inline_cps`), as for an `if` with a `return` / a call in a branch;
+    #   * a call statement of a helper that has no effect at all (logging, temporaries for logging: `effect_free`) is a no-op.
+    # Rejected (Unsupported, as an unknown call was before): recursion, `return` inside a loop of the helper, an exception inside
+    # a helper, a list / object argument of a helper that changes the state (a second name), in-place changes through a parameter.
+    def owner_class(self):
+        f = unwrap_fn(self.obj)
+        f = inspect.unwrap(f) if callable(f) else f
+        glob = getattr(f, "__globals__", None)
+        qn = getattr(f, "__qualname__", "").split(".")
+        if not glob or len(qn) < 2 or "<locals>" in qn:
+            return None
+        owner = glob.get(qn[0])
+        for part in qn[1:-1]:
+            try:
+                owner = inspect.getattr_static(owner, part)
+            except AttributeError:
+                return None
+        return owner if inspect.isclass(owner) else None
+
+    def configured(self, d):
+        return any(d in m for m in (self.mapping, self.calls, self.callfns, self.selfcalls, self.effects, self.inline, self.mutates,
+                                    self.constructors, self.tables, self.raisefns))
+
+    def helper(self, d):
+        """the Helper behind the dotted name d = `self.<name>` (`cls.<name>`, `<ClassName>.<name>`), when the configuration does not
+        name it and the class of the translated function has a plain method / static method / class method / property <name>;
+        else None"""
+        if not d or d in self.helper_cache:
+            return self.helper_cache.get(d) if d else None
+        self.helper_cache[d] = None
+        parts = d.split(".")
+        if len(parts) != 2 or self.configured(d):
+            return None
+        cls = self.owner_class()
+        if cls is None or not (parts[0] in ("self", "cls") or parts[0] == cls.__name__):
+            return None
+        try:
+            raw = inspect.getattr_static(cls, parts[1])
+        except AttributeError:
+            return None
+        if isinstance(raw, staticmethod):
+            kind = "static"
+        elif isinstance(raw, classmethod):
+            kind = "class"
+        elif isinstance(raw, property) or type(raw).__name__ == "cached_property":
+            kind = "property"
+        elif inspect.isfunction(raw):
+            kind = "method"
+        else:
+            return None
+        if parts[0] not in ("self", "cls") and kind in ("method", "property"):
+            return None
+        f = unwrap_fn(raw)
+        try:
+            fn = ast.parse(textwrap.dedent(inspect.getsource(f))).body[0]
+        except (OSError, TypeError, SyntaxError, IndexError):
+            return None
+        if not isinstance(fn, ast.FunctionDef) or fn.args.vararg or fn.args.kwarg or fn.args.kwonlyargs or fn.args.defaults or fn.args.posonlyargs:
+            return None
+        params = [a.arg for a in fn.args.args]
+        if kind != "static":
+            if not params:
+                return None
+            if params[0] != "self" and kind != "class":
+                return None            # the body names the object otherwise than the configuration does
+            params = params[1:]
+        if any(isinstance(x, (ast.Yield, ast.YieldFrom, ast.Await, ast.Global, ast.Nonlocal, ast.FunctionDef, ast.Lambda, ast.ClassDef))
+               for st in fn.body for x in ast.walk(st)):
+            return None
+        h = Helper(parts[1], kind, fn, params, f)
+        self.helper_cache[d] = h
+        self.resolve_aliases(fn)
+        return h
+
+    def helper_call(self, call):
+        """the Helper that the call node calls (a method, not a property), else None"""
+        if not isinstance(call, ast.Call):
+            return None
+        h = self.helper(dotted(call.func))
+        return h if h is not None and h.kind != "property" else None
+
+    @staticmethod
+    def top_names(fn):
+        """the maximal dotted names and the calls of a function, in source order: [(dotted name, is it called)]"""
+        res = []
+
+        def visit(x, inner):
+            if isinstance(x, ast.Call):
+                d = dotted(x.func)
+                if d is not None:
+                    res.append((d, True))
+                    for c in x.args + [k.value for k in x.keywords]:
+                        visit(c, False)
+                    return
+            if isinstance(x, (ast.Attribute, ast.Name)) and not inner:
+                d = dotted(x)
+                if d is not None:
+                    res.append((d, False))
+                    return
+            for c in ast.iter_child_nodes(x):
+                visit(c, False)
+        for st in fn.body:
+            visit(st, False)
+        return res
+
+    def called_helpers(self, fn):
+        """the helpers that the function uses (calls, or reads as a property), directly"""
+        res = []
+        for d, called in self.top_names(fn):
+            h = self.helper(d)
+            if h is not None and (called or h.kind == "property") and h not in res:
+                res.append(h)
+        return res
+
+    def collect_helpers(self, fn):
+        """... directly or through other helpers"""
+        res, todo = [], [fn]
+        while todo:
+            for h in self.called_helpers(todo.pop()):
+                if h not in res:
+                    res.append(h)
+                    todo.append(h.fn)
+        return res
+
+    def analysis(self, key, h, compute):
+        """memoised analysis of a helper; a helper that is being analysed answers `True` (recursion is rejected where the helper
+        is translated: see helper_env)"""
+        k = (key, h.name)
+        if k not in self.memo:
+            self.memo[k] = True
+            self.memo[k] = compute()
+        return self.memo[k]
+
+    def changes_state(self, h):
+        """may the helper change the state of the object (syntactically: it assigns an attribute / an item, it changes a list / an
+        object reached through self in place, it calls a translated state-changing method, a recorded effect, or such a helper)?"""
+        def compute():
+            muts = {m for ms in self.objmethods.values() for m, sig in ms.items() if sig[2].startswith("mut")} | {"append", "clear", "extend"}
+            for x in ast.walk(h.fn):
+                if isinstance(x, (ast.Assign, ast.AugAssign, ast.AnnAssign, ast.Delete)):
+                    tg = x.targets if isinstance(x, (ast.Assign, ast.Delete)) else [x.target]
+                    for t in tg:
+                        for el in (t.elts if isinstance(t, ast.Tuple) else [t]):
+                            if not isinstance(el, ast.Name):
+                                return True
+                if isinstance(x, ast.Call):
+                    f = dotted(x.func) or ""
+                    if f in self.selfcalls or f in self.effects:
+                        return True
+                    recv, _, m = f.rpartition(".")
+                    if m in muts and (recv == "self" or recv.startswith("self.")):
+                        return True
+                    g = self.helper_call(x)
+                    if g is not None and self.changes_state(g):
+                        return True
+            return False
+        return self.analysis("changes", h, compute)
+
+    def effect_free(self, h):
+        """has a call of the helper no effect at all (its value aside)?  No state change, and no call other than logging, pure
+        builtins, pure methods of values, configured pure functions / members, and helpers of this kind."""
+        def compute():
+            if self.changes_state(h):
+                return False
+            logged = {id(y) for x in ast.walk(h.fn) if isinstance(x, ast.Call) and (dotted(x.func) or "").startswith("_LOGGER.") for y in ast.walk(x)}
+            for x in ast.walk(h.fn):
+                if isinstance(x, (ast.For, ast.While, ast.Try, ast.With, ast.Raise, ast.Import, ast.ImportFrom)):
+                    return False
+                if not isinstance(x, ast.Call) or id(x) in logged:
+                    continue
+                f = dotted(x.func)
+                if f is None:
+                    return False
+                if f in PURE_BUILTINS or f in self.callfns or f in self.calls or f in self.constructors:
+                    continue
+                g = self.helper_call(x)
+                if g is not None:
+                    if self.effect_free(g):
+                        continue
+                    return False
+                m = f.rpartition(".")[2]
+                if "." in f and (m in PURE_METHODS or m in self.listmethods
+                                 or any(m in ms and not ms[m][2].startswith(("mut", "raises:")) for ms in self.objmethods.values())):
+                    continue
+                return False
+            return True
+        return self.analysis("free", h, compute)
+
+    def joinable(self, h):
+        """is the helper a function of the environment: assignments, in-place changes of lists / objects, `assert`, `if`s and
+        `return`s (guard clauses) only - no loops, nothing that can raise, no helper inside that is not of this kind; and, when it
+        calls translated methods, no `if` (an `if` with such a call is translated path by path: see `simple`)"""
+        def compute():
+            calls = ifs = False
+            for x in ast.walk(h.fn):
+                if isinstance(x, ast.Call):
+                    f = dotted(x.func) or ""
+                    calls = calls or f in self.selfcalls
+                    g = self.helper_call(x)
+                    if g is not None and not self.joinable(g):
+                        return False
+                    if g is not None:
+                        calls = calls or self.uses_selfcalls(g)
+                        ifs = ifs or any(isinstance(y, (ast.If, ast.IfExp)) for y in ast.walk(g.fn))
+                ifs = ifs or isinstance(x, ast.If)
+
+            def ok(body):
+                for st in body:
+                    if self.skipped(st) or isinstance(st, ast.Assert):
+                        continue
+                    if self.raise_site(st) is not None:
+                        return False
+                    if isinstance(st, ast.Return):
+                        continue
+                    if isinstance(st, ast.If):
+                        if ok(st.body) and ok(st.orelse):
+                            continue
+                        return False
+                    if isinstance(st, (ast.Assign, ast.AugAssign)) or (isinstance(st, ast.AnnAssign) and st.value is not None and st.simple):
+                        continue
+                    if self.del_prefix(st) is not None:
+                        continue
+                    if isinstance(st, ast.Expr) and isinstance(st.value, ast.Call) and (self.stmt_call(st) is not None or self.helper_call(st.value) is not None):
+                        continue
+                    return False
+                return True
+            return ok(h.fn.body) and not (calls and ifs)
+        return self.analysis("join", h, compute)
+
+    def uses_selfcalls(self, h):
+        def compute():
+            for x in ast.walk(h.fn):
+                if isinstance(x, ast.Call):
+                    if dotted(x.func) in self.selfcalls:
+                        return True
+                    g = self.helper_call(x)
+                    if g is not None and g.name != h.name and self.uses_selfcalls(g):
+                        return True
+            return False
+        return self.analysis("selfcalls", h, compute)
+
+    def helper_stmt(self, st):
+        """(form, call node, Helper) when the statement is the call of a helper, in one of the forms `self.h(..)` ("expr"),
+        `x = self.h(..)` ("assign"), `return self.h(..)` ("return"), `if [not] self.h(..):` ("if"); else None"""
+        if isinstance(st, ast.Expr):
+            form, call = "expr", st.value
+        elif isinstance(st, ast.Assign) and len(st.targets) == 1 and isinstance(st.targets[0], ast.Name):
+            form, call = "assign", st.value
+        elif isinstance(st, ast.Return):
+            form, call = "return", st.value
+        elif isinstance(st, ast.If):
+            form, call = "if", (st.test.operand if isinstance(st.test, ast.UnaryOp) and isinstance(st.test.op, ast.Not) else st.test)
+        else:
+            return None
+        h = self.helper_call(call)
+        return None if h is None else (form, call, h)
+
+    def is_state_name(self, d):
+        return d in self.mutates or (d.startswith("$") and (d[1:] in self.ghosts or d.startswith("$clr:")))
+
+    def helper_assigns(self, h):
+        """the state names (mutated attributes, ghosts) that a call of the helper may assign"""
+        if h.name in self.assigning:
+            return []
+        self.assigning.append(h.name)
+        try:
+            return [d for d in self.assigned(h.fn.body) if self.is_state_name(d)]
+        finally:
+            self.assigning.pop()
+
+    def ctx_get(self):
+        return (self.retk, self.cx, self.in_helper, self.frozen, self.scope, tuple(self.inlining))
+
+    def ctx_set(self, c):
+        self.retk, self.cx, self.in_helper, self.frozen, self.scope, inl = c
+        self.inlining = list(inl)
+
+    def helper_env(self, h, call, env):
+        """the environment in which the body of the helper runs: the current state, and its parameters bound to the arguments
+        (translated in the caller's environment).  Answers (environment, the parameters that hold a list / an object)."""
+        if h.name in self.inlining:
+            raise Unsupported(f"the helper method {h.name} is recursive")
+        args = list(call.args) if call is not None else []
+        kws = list(call.keywords) if call is not None else []
+        if any(isinstance(x, ast.Starred) for x in args) or any(k.arg is None for k in kws):
+            raise Unsupported(f"call of the helper method {h.name} with * / ** arguments")
+        if len(args) > len(h.params):
+            raise Unsupported(f"call of the helper method {h.name}: {len(args)} arguments, {len(h.params)} expected")
+        bound = dict(zip(h.params, args))
+        for k in kws:
+            if k.arg in bound or k.arg not in h.params:
+                raise Unsupported(f"call of the helper method {h.name}: keyword {k.arg}")
+            bound[k.arg] = k.value
+        if len(bound) != len(h.params):
+            raise Unsupported(f"call of the helper method {h.name}: {len(bound)} arguments, {len(h.params)} expected")
+        henv = {d: v for d, v in env.items() if self.is_state_name(d)}
+        frozen = set()
+        for p in h.params:
+            arg = bound[p]
+            while (isinstance(arg, ast.Call) and dotted(arg.func) == "cast" and len(arg.args) == 2 and not arg.keywords
+                   and dotted(arg.args[0]) in self.constructors):
+                arg = arg.args[1]          # typing.cast is the identity at run time: the helper gets the value itself (None stays None)
+            e, te = self.expr(arg, env)
+            if elem_type(te) is not None or OPT_BASE.get(te, te) in OBJECTS:
+                if self.changes_state(h):
+                    raise Unsupported(f"a list / an object is passed to the helper method {h.name}, which changes the state (a second name)")
+                frozen.add(p)
+            henv[p] = V(e, te, False)
+        return henv, frozen
+
+    def enter_helper(self, h, frozen, ret):
+        self.retk = ret
+        self.cx = self.cx._replace(brk=None, cont=None)
+        self.in_helper = True
+        self.frozen = frozen
+        self.scope = h.obj
+        self.inlining = self.inlining + [h.name]
+
+    def merge_back(self, env, henv):
+        env2 = dict(env)
+        for d, v in henv.items():
+            if self.is_state_name(d):
+                env2[d] = v
+        return env2
+
+    def returned_alias(self, node, te):
+        """is the value that a helper returns (the expression node, its type) a list / an object that has another name?"""
+        while isinstance(node, ast.Call) and dotted(node.func) == "cast" and len(node.args) == 2:
+            node = node.args[1]
+        if node is None or dotted(node) is None:
+            return False
+        return (elem_type(te) is not None and bool(self.appended)) or (OPT_BASE.get(te, te) in OBJECTS and self.inplace)
+
+    def inline_join(self, call, h, env):
+        """The helper as a function of the environment (`joinable`): its body is run in the current state; the environments and
+        values where it returns are joined (`if c then .. else ..` per attribute, as for an `if` statement that only assigns).
+        Answers (the caller's environment afterwards, the returned value, its type)."""
+        outer = self.ctx_get()
+        henv, frozen = self.helper_env(h, call, env)
+        levels = self.cx.levels
+        leaves = []
+
+        def ret(e2, v, tv, node):
+            if self.cx.levels != levels:
+                raise Unsupported(f"return inside a loop of the helper method {h.name}")
+            if self.returned_alias(node, tv):
+                raise Unsupported(f"the helper method {h.name} returns a list / an object that has another name")
+            leaf = {d: x for d, x in e2.items() if self.is_state_name(d)}
+            leaf["$ret"] = V(v, tv, False)
+            leaves.append(leaf)
+            return ("hret", len(leaves) - 1)
+        self.enter_helper(h, frozen, ret)
+        try:
+            tree = self.block(h.fn.body, henv, lambda e: ret(e, NONE, "none", None))
+        finally:
+            self.ctx_set(outer)
+
+        def fold(t):
+            if t[0] == "hret":
+                return leaves[t[1]]
+            if t[0] == "ite":
+                return self.join(t[1], fold(t[2]), fold(t[3]))
+            raise Unsupported(f"the helper method {h.name} is not a function of the environment")
+        joined = fold(tree)
+        rv = joined.pop("$ret")
+        env2 = dict(env)
+        env2.update(joined)
+        return env2, (bool_term(rv.ir) if rv.type == "bool" else rv.ir), rv.type
+
+    def helper_value(self, h, call, env):
+        """a helper (a property: call None) inside an expression: its value; it must not change the state"""
+        if self.changes_state(h):
+            raise Unsupported(f"call of the state-changing helper method {h.name} inside an expression")
+        if not self.joinable(h):
+            raise Unsupported(f"the helper method {h.name} (loops / calls that can raise) inside an expression")
+        _, e, te = self.inline_join(call, h, env)
+        return e, te
+
+    def bind_result(self, st, env, e, te):
+        """`x = <value of a helper>`: the checks of an assignment to a local (see exec_simple)"""
+        d = st.targets[0].id
+        if d == "self" or (d in self.mapping and d not in env) or d in self.mutates:
+            raise Unsupported(f"assignment to {d}")
+        if d in self.detached or any(d == v for v, _, _ in self.mutloops):
+            raise Unsupported(f"the variable {d} of a loop that changes its items is assigned")
+        return self.assign(d, e, te, env)
+
+    def inline_cps(self, form, call, h, st, rest, env, k):
+        """A helper that is no function of the environment (a translated method is called on some of its paths, it has a loop):
+        translated path by path - what follows the call (`rest`, then k) is translated where the helper returns, once per return
+        path, in the state of that path (as for an `if` with a `return` or a call of a translated method in a branch)."""
+        outer = self.ctx_get()
+        henv, frozen = self.helper_env(h, call, env)
+        levels = self.cx.levels
+
+        def ret(e2, v, tv, node):
+            if self.cx.levels != levels:
+                raise Unsupported(f"return inside a loop of the helper method {h.name}")
+            if form == "assign" and self.returned_alias(node, tv):
+                raise Unsupported(f"the helper method {h.name} returns a list / an object that has another name")
+            here = self.ctx_get()
+            self.ctx_set(outer)
+            try:
+                env2 = self.merge_back(env, e2)
+                if form == "assign":
+                    env2 = self.bind_result(st, env2, v, tv)
+                return self.block(rest, env2, k)
+            finally:
+                self.ctx_set(here)
+        self.enter_helper(h, frozen, ret)
+        try:
+            return self.block(h.fn.body, henv, lambda e: ret(e, NONE, "none", None))
+        finally:
+            self.ctx_set(outer)
+
+    def rebinds(self, st, a):
+        """may the statement re-bind the attribute a (an assignment, a translated method / a helper that changes the state)?"""
+        for x in ast.walk(st):
+            if isinstance(x, (ast.Assign, ast.AugAssign, ast.AnnAssign, ast.Delete)):
+                tg = x.targets if isinstance(x, (ast.Assign, ast.Delete)) else [x.target]
+                for t in tg:
+                    for el in (t.elts if isinstance(t, (ast.Tuple, ast.List)) else [t]):
+                        if dotted(el) == a:
+                            return True
+            if isinstance(x, ast.Call):
+                f = dotted(x.func)
+                if f in self.selfcalls:
+                    return True
+                g = self.helper_call(x)
+                if g is not None and self.changes_state(g):
+                    return True
+        return False
+
+    def resolve_aliases(self, fn):
+        """READ-ONLY LOCAL ALIASES.  A local that is bound exactly once, by `x = self.a` / `x = cast(C, self.a)` for an attribute a
+        of the state that holds a list or an object, is another name for the attribute: every read of x becomes a read of
+        `self.a` (and the binding goes away), PROVIDED that all reads of x are in the statements that follow the binding in its
+        block, and that none of these statements, up to the last one that reads x, can re-bind the attribute (an assignment to it,
+        a call of a translated method or of a state-changing helper).  In-place changes are seen through both names, as in
+        Python.  Where the proviso fails the function is left as it is (a second name for a list / an object that may be changed
+        in place is then rejected by `exec_simple`, as before)."""
+        params = {a.arg for a in fn.args.args}
+        stores = {}
+        for x in ast.walk(fn):
+            if isinstance(x, ast.Name) and isinstance(x.ctx, (ast.Store, ast.Del)):
+                stores[x.id] = stores.get(x.id, 0) + 1
+        blocks = []
+        for x in ast.walk(fn):
+            for field in ("body", "orelse", "finalbody"):
+                blk = getattr(x, field, None)
+                if isinstance(blk, list) and blk and isinstance(blk[0], ast.stmt):
+                    blocks.append(blk)
+        for blk in blocks:
+            for i, st in enumerate(blk):
+                if not (isinstance(st, ast.Assign) and len(st.targets) == 1 and isinstance(st.targets[0], ast.Name)):
+                    continue
+                x = st.targets[0].id
+                if x in params or stores.get(x) != 1 or x == "self":
+                    continue
+                inner = st.value
+                if isinstance(inner, ast.Call) and dotted(inner.func) == "cast" and len(inner.args) == 2 and not inner.keywords:
+                    inner = inner.args[1]
+                a = dotted(inner)
+                if a is None or a not in self.mutates or not isinstance(inner, ast.Attribute):
+                    continue
+                t = self.mutates[a][1]
+                if not (OPT_BASE.get(t, t) in OBJECTS or elem_type(t) is not None):
+                    continue
+                tail = blk[i + 1:]
+                reads = [n for n in ast.walk(fn) if isinstance(n, ast.Name) and n.id == x and isinstance(n.ctx, ast.Load)]
+                where = [next((j for j, s in enumerate(tail) if any(n is r for n in ast.walk(s))), None) for r in reads]
+                if any(j is None for j in where):
+                    continue
+                last = max(where) if where else -1
+                if any(self.rebinds(s, a) for s in tail[:last + 1]):
+                    continue
+                value = inner                  # (typing.cast is the identity at run time: the alias is the attribute itself)
+
+                class Sub(ast.NodeTransformer):
+                    def visit_Name(self, n):
+                        if n.id == x and isinstance(n.ctx, ast.Load):
+                            return ast.copy_location(copy.deepcopy(value), n)
+                        return n
+                for j in range(last + 1):
+                    tail[j] = Sub().visit(tail[j])
+                    ast.fix_missing_locations(tail[j])
+                blk[i + 1:] = tail
+                blk[i] = ast.copy_location(ast.Pass(), st)
 
     @staticmethod
     def neg_literal(n):
@@ -1016,14 +1815,27 @@ class Fn:
         for st in body:
             if self.raise_site(st) is not None:
                 return False
+            hs = self.helper_stmt(st)
+            if hs is not None and hs[0] in ("expr", "assign"):
+                # the call of a helper method: a function of the environment (or a no-op), or translated path by path (block)
+                if self.joinable(hs[2]) or (hs[0] == "expr" and self.effect_free(hs[2])):
+                    continue
+                return False
+            if hs is not None and hs[0] == "if" and (self.changes_state(hs[2]) or not self.joinable(hs[2])):
+                return False
             if self.skipped(st) or isinstance(st, (ast.Assign, ast.AugAssign)):
+                continue
+            if isinstance(st, ast.AnnAssign) and st.value is not None and st.simple:
+                continue
+            if self.del_prefix(st) is not None:
                 continue
             if self.stmt_call(st) is not None or isinstance(st, ast.Assert):
                 continue
             if isinstance(st, ast.If) and self.simple(st.body) and self.simple(st.orelse):
                 # an `if` that calls other methods of the object is translated path by path (`if c then <state after
                 # A> else <state after B>`, as with a `return` inside), not attribute by attribute
-                if not any(isinstance(x, ast.Call) and dotted(x.func) in self.selfcalls for x in ast.walk(st)):
+                if not any(isinstance(x, ast.Call) and (dotted(x.func) in self.selfcalls or (self.helper_call(x) is not None and self.uses_selfcalls(self.helper_call(x))))
+                           for x in ast.walk(st)):
                     continue
             return False
         return True
@@ -1058,8 +1870,27 @@ class Fn:
             return ["$" + self.effects[f]]
         if "." in f:
             recv, m = f.rsplit(".", 1)
-            if m in ("append", "clear") or any(ms.get(m, ("", [], ""))[2].startswith("mut") for ms in self.objmethods.values()):
+            if m in ("append", "clear", "extend") or any(ms.get(m, ("", [], ""))[2].startswith("mut") for ms in self.objmethods.values()):
                 return [recv]
+        return None
+
+    @staticmethod
+    def del_prefix(st):
+        """`del x[:n]` (the first n items are removed in place): (x as an expression node, n), else None"""
+        if isinstance(st, ast.Delete) and len(st.targets) == 1 and isinstance(st.targets[0], ast.Subscript):
+            sub = st.targets[0]
+            if isinstance(sub.slice, ast.Slice) and sub.slice.lower is None and sub.slice.upper is not None and sub.slice.step is None:
+                if dotted(sub.value) is not None:
+                    return sub.value, sub.slice.upper
+        return None
+
+    @staticmethod
+    def append_form(st):
+        """`L += [x]` (one item): the equivalent call node `L.append(x)`, else None"""
+        if (isinstance(st, ast.AugAssign) and isinstance(st.op, ast.Add) and isinstance(st.value, ast.List) and len(st.value.elts) == 1
+                and not isinstance(st.value.elts[0], ast.Starred) and dotted(st.target) is not None):
+            recv = ast.parse(dotted(st.target), mode="eval").body
+            return ast.copy_location(ast.Call(func=ast.Attribute(value=recv, attr="append", ctx=ast.Load()), args=[st.value.elts[0]], keywords=[]), st)
         return None
 
     def assigned(self, body):
@@ -1074,8 +1905,10 @@ class Fn:
                     for el in x.targets[0].elts:
                         if isinstance(el, ast.Name) and el.id != "_" and el.id not in res:
                             res.append(el.id)
-            elif isinstance(x, ast.AugAssign):
+            elif isinstance(x, (ast.AugAssign, ast.AnnAssign)):
                 d = dotted(x.target)
+            elif self.del_prefix(x) is not None:
+                d = dotted(self.del_prefix(x)[0])
             if isinstance(x, ast.Assign) and isinstance(x.value, ast.Call) and dotted(x.value.func) and "." in dotted(x.value.func):
                 recv, m = dotted(x.value.func).rsplit(".", 1)      # `v = x.m(..)` for a method that changes x and answers a value
                 if any(ms.get(m, ("", [], ""))[2].startswith("mut:") for ms in self.objmethods.values()) and recv not in res:
@@ -1087,6 +1920,10 @@ class Fn:
             for g in [d] if d is not None else (self.stmt_call(x) or []):
                 if g not in res:
                     res.append(g)
+            if isinstance(x, ast.Call) and self.helper_call(x) is not None:       # a helper method: the state names it may assign
+                for g in self.helper_assigns(self.helper_call(x)):
+                    if g not in res:
+                        res.append(g)
             for c in ast.iter_child_nodes(x):          # source order
                 visit(c)
         for st in body:
@@ -1113,10 +1950,33 @@ class Fn:
                 # it); the test is translated, and dropped, so that an unsupported expression in it is still rejected
                 self.truth(st.test, env)
                 continue
+            self.cur_stmt = st
             if isinstance(st, ast.Expr):                           # a statement call that changes a variable
-                env = self.exec_call(st.value, env)
+                hs = self.helper_stmt(st)
+                if hs is not None and self.effect_free(hs[2]):     # a helper without any effect (logging): a no-op
+                    self.helper_env(hs[2], st.value, env)          # (the arguments are translated, and dropped: see assert)
+                elif hs is not None:
+                    env = self.inline_join(st.value, hs[2], env)[0]
+                else:
+                    env = self.exec_call(st.value, env)
                 continue
-            if isinstance(st, ast.Assign):
+            if self.append_form(st) is not None and dotted(st.target) in env and elem_type(env[dotted(st.target)].type) is not None:
+                env = self.exec_call(self.append_form(st), env)    # L += [x]  is  L.append(x)
+                continue
+            hint = None
+            if self.del_prefix(st) is not None:                    # del x[:n]  is  x = x[n:], in place (x is in `appended`)
+                target, n = self.del_prefix(st)
+                value = ast.copy_location(ast.Subscript(value=target, slice=ast.Slice(lower=n, upper=None, step=None), ctx=ast.Load()), st)
+            elif isinstance(st, ast.AnnAssign):                    # the annotation is not evaluated; `list[C]` types a `[]`
+                target, value = st.target, st.value
+                an = st.annotation
+                if isinstance(an, ast.Subscript) and dotted(an.value) in ("list", "List") and isinstance(value, ast.List) and not value.elts:
+                    c = dotted(an.slice)
+                    if c in self.constructors:
+                        hint = "list:" + self.constructors[c][1]
+                    elif c in self.raisefns:
+                        hint = "list:" + self.raisefns[c][2]
+            elif isinstance(st, ast.Assign):
                 if len(st.targets) != 1:
                     raise Unsupported("multiple assignment")
                 target, value = st.targets[0], st.value
@@ -1128,14 +1988,18 @@ class Fn:
             d = dotted(target)
             if d is None or not (isinstance(target, ast.Name) or d in self.mutates):
                 raise Unsupported(f"assignment target {ast.dump(target)[:40]}")
-            if d == "self" or (d in self.mapping and d not in env):
+            if d == "self" or (d in self.mapping and d not in env and not (self.in_helper and "." not in d)):
                 raise Unsupported(f"assignment to {d}")
             if d in self.detached:
                 raise Unsupported(f"{d} is re-bound inside the loop that iterates over it and changes its items")
             if any(d == v for v, _, _ in self.mutloops):
                 raise Unsupported(f"the variable {d} of a loop that changes its items is assigned")
+            if d in self.frozen and (isinstance(st, ast.AugAssign) or self.del_prefix(st) is not None):
+                raise Unsupported(f"the parameter {d} of a helper method, which holds a list / an object of the caller, is changed in place")
             mv = self.mut_value_call(value, env) if isinstance(value, ast.Call) else None
-            if isinstance(value, ast.Call) and dotted(value.func) in self.selfcalls:
+            if self.helper_call(value) is not None and self.changes_state(self.helper_call(value)):
+                env, e, te = self.inline_join(value, self.helper_call(value), env)       # x = self.helper(..), which changes the state
+            elif isinstance(value, ast.Call) and dotted(value.func) in self.selfcalls:
                 env, e, te = self.selfcall(value, env)             # x = self.method(..)
                 if te is None:
                     raise Unsupported(f"{d} = {dotted(value.func)}(..), which returns None")
@@ -1147,8 +2011,13 @@ class Fn:
                 e = mk_proj(res, "2")
             else:
                 e, te = self.expr(value, env)
-            dv = dotted(value)
-            if elem_type(te) is not None and (isinstance(value, ast.Name) or dv in self.mutates) and (d in self.appended or dv in self.appended):
+                if hint is not None and e == NIL:
+                    e, te = nil_of(hint), hint
+            vv = value                                             # (typing.cast is the identity: `x = cast(C, y)` is a second name for y)
+            while isinstance(vv, ast.Call) and dotted(vv.func) == "cast" and len(vv.args) == 2 and not vv.keywords:
+                vv = vv.args[1]
+            dv = dotted(vv)
+            if elem_type(te) is not None and (isinstance(vv, ast.Name) or dv in self.mutates) and (d in self.appended or dv in self.appended):
                 raise Unsupported(f"{d} = {dv}: two names for one list that may be changed in place")
             if OPT_BASE.get(te, te) in OBJECTS and self.inplace and dv is not None and not self.is_move(d, dv, st):
                 raise Unsupported(f"{d} = {dv}: two names for one object that may be changed in place")
@@ -1166,6 +2035,8 @@ class Fn:
         if not rt.startswith("mut:"):
             return None
         tgt = self.object_holder(f, env)[0]
+        if tgt in self.frozen:
+            raise Unsupported(f"{f}: the parameter {tgt} of a helper method, which holds an object of the caller, is changed in place")
         if call.keywords or len(argts) != len(call.args):
             raise Unsupported(f"call {f}: {len(call.args)} arguments, {len(argts)} expected")
         if tgt not in self.mutates and (tgt in self.mapping or "." in tgt):
@@ -1223,6 +2094,8 @@ class Fn:
                 raise Unsupported(f"call {f} with arguments")
             return self.assign("$" + g, TRUE, "bool", env)
         tgt, m = f.rsplit(".", 1)
+        if tgt in self.frozen:
+            raise Unsupported(f"{f}: the parameter {tgt} of a helper method, which holds a list / an object of the caller, is changed in place")
         if tgt in self.detached:
             # the list that a loop is iterating over (and whose items it changes): `clear()` is recorded in a flag - the
             # iterator finds the list empty, so the loop ends with this iteration (see do_for_exit); nothing else
@@ -1245,7 +2118,7 @@ class Fn:
             if rt.startswith("mut:"):                              # the value it answers is dropped
                 res = mk_proj(res, "1")
             return self.assign(tgt, res, OPT_BASE.get(env[tgt].type, env[tgt].type), env)
-        if m not in ("append", "clear"):
+        if m not in ("append", "clear", "extend"):
             raise Unsupported(f"statement call {f}")
         # x.append(v), x.clear() of a list: a local, or a mutated attribute (its final value is answered)
         if tgt not in env or (tgt in self.mapping and tgt not in self.mutates):
@@ -1258,12 +2131,87 @@ class Fn:
                 raise Unsupported("clear with arguments")
             return self.assign(tgt, nil_of(tl), tl, env)
         if len(call.args) != 1:
-            raise Unsupported("append with other than one argument")
+            raise Unsupported(f"{m} with other than one argument")
+        if m == "extend":                                          # x.extend(y): x = x ++ y, in place (x is in `appended`)
+            y, ty = self.expr(call.args[0], env)
+            if ty == "optlist":                                    # total: None is used as b""
+                y, ty = self.to_list(y, ty), "list"
+            if tl != "list" or ty != "list":
+                raise Unsupported(f"extend of a {tl} by a {ty}")
+            return self.assign(tgt, mk_cat(l, y), "list", env)
+        if tl == "list" and l == NIL:                              # the literal `[]`: a list of what is appended
+            tx = self.expr(call.args[0], env)[1]
+            if tx in OBJECTS:
+                l, tl = nil_of("list:" + tx), "list:" + tx
         if tl != "list":
-            if any(tgt == L for _, L, _ in self.mutloops) or elem_type(tl) in OBJECTS and self.inplace:
+            changeable = any(sig[2].startswith("mut") for sig in self.objmethods.get(elem_type(tl), {}).values())     # (else: no configured method changes it)
+            if any(tgt == L for _, L, _ in self.mutloops) or (elem_type(tl) in OBJECTS and self.inplace and changeable and not self.append_is_move(call)):
                 raise Unsupported(f"append of an object to {tgt} in a function that changes objects in place")
             return self.assign(tgt, ("append1", l, self.convert(*self.expr(call.args[0], env), elem_type(tl))), tl, env)
         return self.assign(tgt, ("append1", l, self.to_int(*self.expr(call.args[0], env))), "list", env)
+
+    def fresh_assign(self, x, a):
+        """is the statement `a = C()` for a configured constructor, or `a = None`?"""
+        return (isinstance(x, ast.Assign) and len(x.targets) == 1 and dotted(x.targets[0]) == a
+                and ((isinstance(x.value, ast.Constant) and x.value.value is None)
+                     or (isinstance(x.value, ast.Call) and not x.value.args and not x.value.keywords and dotted(x.value.func) in self.constructors)))
+
+    def append_is_move(self, call):
+        """`L.append(self.a)` / `L.append(cast(C, self.a))` for an Optional-object attribute a, in a function that changes objects
+        in place: the list holds a second reference to the object.  Accepted as a MOVE when the statement that follows in the same
+        block (calls of configured methods of other object attributes aside: `self._buffer.trim..()`) re-binds self.a to a
+        fresh object (or None) before anything can change the object: `self.a = C()` / `self.a = None`,
+        or `self.m()` for a translated method m without parameters whose body is straight-line (assignments, `x.clear()` /
+        `x.append(v)` on list attributes, no other calls) and whose first statement that mentions self.a is such an assignment."""
+        arg = call.args[0]
+        if isinstance(arg, ast.Call) and dotted(arg.func) == "cast" and len(arg.args) == 2 and dotted(arg.args[0]) in self.constructors:
+            arg = arg.args[1]
+        a = dotted(arg)
+        if a is None or a not in self.mutates or OPT_BASE.get(self.mutates[a][1]) not in OBJECTS:
+            return False
+        x = None
+        for y in self.following.get(id(self.cur_stmt), []):
+            if self.skipped(y):
+                continue
+            # a call of a configured method of ANOTHER object attribute (`self._buffer.trim..()`) cannot reach the object
+            f = dotted(y.value.func) if isinstance(y, ast.Expr) and isinstance(y.value, ast.Call) else None
+            recv, _, m = (f or "").rpartition(".")
+            if (f and recv != a and recv in self.mutates and self.mutates[recv][1] in OBJECTS and m in self.objmethods.get(self.mutates[recv][1], {})
+                    and not any(dotted(z) == a for z in ast.walk(y))):
+                continue
+            x = y
+            break
+        if x is None:
+            return False
+        if self.fresh_assign(x, a):
+            return True
+        if not (isinstance(x, ast.Expr) and isinstance(x.value, ast.Call) and dotted(x.value.func) in self.selfcalls
+                and not x.value.args and not x.value.keywords):
+            return False
+        g = self.selfcalls[dotted(x.value.func)]
+        if g.failed or isinstance(g.obj, _Missing):
+            return False
+        try:
+            body = ast.parse(textwrap.dedent(inspect.getsource(unwrap_fn(g.obj)))).body[0].body
+        except (OSError, TypeError, SyntaxError):
+            return False
+        for y in body:
+            if g.skipped(y):
+                continue
+            if g.fresh_assign(y, a):
+                return True
+            if any(dotted(z) == a for z in ast.walk(y)) or not isinstance(y, (ast.Assign, ast.AugAssign, ast.Expr)):
+                return False
+            for z in ast.walk(y):
+                if isinstance(z, ast.Call):
+                    f = dotted(z.func) or ""
+                    recv, _, m = f.rpartition(".")
+                    if f in ("bytearray", "bytes") and not z.args:
+                        continue
+                    if m in ("clear", "append") and recv in g.mutates and elem_type(g.mutates[recv][1]) is not None:
+                        continue
+                    return False
+        return False
 
     def state_term(self, env):
         """the current state of the object, as the argument of another translated method"""
@@ -1373,7 +2321,7 @@ class Fn:
         """`return value` (value None: a bare `return`, or the end of the body) of a function with a state"""
         none = value is None or (isinstance(value, ast.Constant) and value.value is None)
         if self.pyret is None:
-            if not none:
+            if not none and not (isinstance(value, ast.Name) and value.id in env and env[value.id].type == "none"):
                 raise Unsupported("a value is returned from a function that is configured to return None")
             return self.final_state(env)
         if none:
@@ -1407,6 +2355,8 @@ class Fn:
     def raise_term(self, e, env):
         """the value of the statement when the exception e (a term of type PyExc) is raised here: the handler of the
         enclosing `try`, else the function answers `Except.error e`"""
+        if self.in_helper:
+            raise Unsupported("an exception can be raised inside a helper method")
         h = self.cx.handler
         if h is None:
             if not self.raises:
@@ -1426,6 +2376,13 @@ class Fn:
         f = call.func.id
         if call.keywords:
             raise Unsupported(f"keyword arguments in call {f}")
+        if f in self.raisefns and f not in env:                    # a configured class / function that may raise
+            lean, argts, rt = self.raisefns[f]
+            if len(argts) != len(call.args):
+                raise Unsupported(f"call {f}: {len(call.args)} arguments, {len(argts)} expected")
+            args = [self.convert(*self.expr(x, env), want) for x, want in zip(call.args, argts)]
+            vid, eid = self.new_id(hint), self.new_id("e")
+            return ("mexc", ("app", lean, args), vid, cont(("var", vid), rt, env), eid, self.raise_term(("var", eid), env))
         if f not in env or env[f].unbound:
             raise Unsupported(f"call {f}")
         sig = self.objmethods.get(env[f].type, {}).get("__call__")
@@ -1521,12 +2478,41 @@ class Fn:
                 if not (self.mutates or self.ghosts):
                     return self.bind_call(st.value, env, "v", lambda v, t, e: self.answer(self.coerce(v, t, self.ret_tag())))
                 return self.bind_call(st.value, env, "v", lambda v, t, e: self.answer(self.final_state(e, self.coerce(v, t, self.pyret))))
+            hs = self.helper_stmt(st)
+            if hs is not None and hs[0] == "return" and (self.changes_state(hs[2]) or not self.joinable(hs[2])):
+                # `return self.h(..)` for a helper that is no plain value is `t = self.h(..)`, `return t` for a fresh local t
+                tmp = ast.Name(id="$r%d" % len(self.hints), ctx=ast.Load())
+                first = ast.copy_location(ast.Assign(targets=[ast.Name(id=tmp.id, ctx=ast.Store())], value=hs[1]), st)
+                second = ast.copy_location(ast.Return(value=tmp), st)
+                ast.fix_missing_locations(first)
+                ast.fix_missing_locations(second)
+                return self.block([first, second] + rest, env, k)
+            if hs is not None and hs[0] in ("expr", "assign") and not self.simple([st]):
+                return self.inline_cps(hs[0], hs[1], hs[2], st, rest, env, k)
             if self.simple([st]):
                 env = self.exec_simple([st], env)
                 continue
             if isinstance(st, ast.If):
+                call = st.test.operand if isinstance(st.test, ast.UnaryOp) and isinstance(st.test.op, ast.Not) else st.test
+                if isinstance(call, ast.Call) and (dotted(call.func) in self.selfcalls or (hs is not None and (self.changes_state(hs[2]) or not self.joinable(hs[2])))):
+                    # `if [not] self.m():` is `t = self.m()` and `if [not] t:` for a fresh local t
+                    tmp = ast.Name(id="$t%d" % len(self.hints), ctx=ast.Load())
+                    test = ast.UnaryOp(op=ast.Not(), operand=tmp) if call is not st.test else tmp
+                    first = ast.copy_location(ast.Assign(targets=[ast.Name(id=tmp.id, ctx=ast.Store())], value=call), st)
+                    second = ast.copy_location(ast.If(test=ast.copy_location(test, st), body=st.body, orelse=st.orelse), st)
+                    ast.fix_missing_locations(first)
+                    ast.fix_missing_locations(second)
+                    return self.block([first, second] + rest, env, k)
                 c = self.truth(st.test, env)
                 return mk_ite(c, self.block(st.body + rest, env, k), self.block(st.orelse + rest, env, k))
+            if isinstance(st, ast.Return) and self.retk is not None:       # inside a helper method: the helper returns
+                value = st.value
+                if value is None or (isinstance(value, ast.Constant) and value.value is None):
+                    return self.retk(env, NONE, "none", None)
+                if isinstance(value, ast.Call) and dotted(value.func) in self.selfcalls:
+                    env, e, te = self.selfcall(value, env)
+                    return self.retk(env, NONE if te is None else e, te or "none", None)
+                return self.retk(env, *self.expr(value, env), value)
             if isinstance(st, ast.Return):
                 if self.mutates or self.ghosts:
                     return self.answer(self.do_return(st.value, env))
@@ -1535,18 +2521,18 @@ class Fn:
                 return self.answer(self.coerce(*self.expr(st.value, env), self.ret_tag()))
             if isinstance(st, ast.Break):
                 if self.cx.brk is None:
-                    raise Unsupported("break outside a for loop")
+                    raise Unsupported("break outside a loop")
                 return self.cx.brk(env)
             if isinstance(st, ast.Continue):
                 if self.cx.cont is None:
-                    raise Unsupported("continue outside a for loop")
+                    raise Unsupported("continue outside a loop")
                 return self.cx.cont(env)
             if isinstance(st, ast.Try):
                 return self.do_try(st, rest, env, k)
             if isinstance(st, ast.For):
                 return self.do_for(st, rest, env, k)
             if isinstance(st, ast.While):
-                return self.do_while(st, env)          # no break: what follows the loop is never reached
+                return self.do_while(st, rest, env, k)
             if isinstance(st, ast.Expr) and isinstance(st.value, ast.Call):
                 raise Unsupported(f"statement call {dotted(st.value.func)}")
             raise Unsupported(f"statement {type(st).__name__}")
@@ -1771,45 +2757,124 @@ class Fn:
         return ("letloop", outs, [ids[d] for d in state], item, [types[d] for d in state], body, inits, coll,
                 self.block(rest, env2, k), lst, ity)
 
-    def do_while(self, st, env):
-        """`while True:` without break/continue (so whatever follows it is never reached from the loop).  The loop becomes an
-        auxiliary definition by recursion on a fuel argument, whose body is the translated loop body followed by
-        the recursive call; the state is ALL locals of the function, in order of first assignment (a local that is
-        not bound yet is passed as the default of its type; it cannot be read before it is assigned).  A `return`
-        in the body is a return of the function, as in Python.  Python's loop has no bound: when the fuel runs out
-        the auxiliary definition answers its extra argument `oof`, and the equivalence theorem is stated for every
-        `oof` and every large enough fuel — so it also proves that the fuel the definition grants (`Fn.fuel`) is
-        never used up."""
-        if not (isinstance(st.test, ast.Constant) and st.test.value is True):
-            raise Unsupported("while with a condition other than True")
+    @staticmethod
+    def own_exits(body):
+        """the `break` / `continue` statements that belong to the loop with this body (not to a loop inside it)"""
+        res = []
+
+        def visit(x):
+            if isinstance(x, (ast.Break, ast.Continue)):
+                res.append(x)
+            if isinstance(x, (ast.For, ast.While, ast.FunctionDef, ast.Lambda)):
+                return
+            for c in ast.iter_child_nodes(x):
+                visit(c)
+        for st in body:
+            visit(st)
+        return res
+
+    def do_while(self, st, rest, env, k):
+        """`while c:` / `while True:`.  The loop becomes an auxiliary definition by recursion on a fuel argument:
+        `if c then <body; the recursive call> else <what follows the loop>`; `continue` is the recursive call, `break` is
+        what follows the loop, a `return` in the body is a return of the function, as in Python.  (`while True:` without
+        `break`: what follows is never reached, and is not translated.)  The state is ALL locals of the function (and
+        the mutated attributes), in order of first assignment (a local that is not bound yet is passed as the default of
+        its type; it cannot be read before it is assigned).  Python's loop has no bound: when the fuel runs out the
+        auxiliary definition answers its extra argument `oof`, and the equivalence theorem is stated for every `oof` and
+        every large enough fuel - so it also proves that the fuel the definition grants (`Fn.fuel`, a stated measure
+        of the state on entry) is never used up."""
+        always = isinstance(st.test, ast.Constant) and st.test.value is True
         if st.orelse:
             raise Unsupported("while-else")
-        if any(isinstance(x, (ast.Break, ast.Continue, ast.While)) for s2 in st.body for x in ast.walk(s2)):
-            raise Unsupported("break / continue / nested while in `while True`")
+        if any(isinstance(x, ast.While) for s2 in st.body for x in ast.walk(s2)):
+            raise Unsupported("nested while")
         if self.fuel is None:
-            raise Unsupported("`while True` in a function without a configured fuel")
+            raise Unsupported("`while` in a function without a configured fuel")
         if self.cx.levels or self.in_while:
-            raise Unsupported("`while True` inside another loop")
-        state = [d for d in self.order if d not in self.loop_targets]
+            raise Unsupported("`while` inside another loop")
+        if self.cx.handler is not None:
+            raise Unsupported("`while` inside try")
+        exits = self.own_exits(st.body)
+        has_break = any(isinstance(x, ast.Break) for x in exits)
+        legacy = always and not has_break and self.loop_state_all
+        if legacy:
+            state = [d for d in self.order if d not in self.loop_targets]
+        else:
+            # the names the body may assign (the others keep their values, which are terms over the parameters of the
+            # function); components that nothing needs are pruned below
+            names = self.assigned(st.body)
+            state = [d for d in self.order if d in names and d not in self.loop_targets]
+            for d, v in env.items():
+                if d not in state and uses(v.ir):
+                    raise Unsupported(f"`while`: the value of {d} depends on a bound variable")
         name = f"{self.name}.loop{len(self.aux) + 1}"
         pargs = " ".join(n for n, _ in self.params)
+        outer = self.cx
 
         def run(benv, ids, types):
-            self.in_while = True
             leaf = self.leaf
+
+            def again(e):
+                return ("app" if legacy else "again", f"{name} {pargs} oof fuel", leaf(e))
+
+            def after(e):                      # what follows the loop (outside of it)
+                if always and not has_break:
+                    raise Unsupported("internal: unreachable")
+                here, was_in = self.cx, self.in_while
+                self.cx, self.in_while = outer, False
+                try:
+                    return self.block(rest, e, k)
+                finally:
+                    self.cx, self.in_while = here, was_in
+            self.in_while = True
+            self.cx = Cx((), after, again, None)
             try:
-                return self.block(st.body, benv, lambda e: ("app", f"{name} {pargs} oof fuel", leaf(e)))
+                body = self.block(st.body, benv, again)
+                if always:
+                    return body
+                return mk_ite(self.truth(st.test, benv), body, after(benv))
             finally:
                 self.in_while = False
+                self.cx = outer
         ids, types, body = self.loop_state(state, env, run)
-        head = [f"def {name} " + " ".join(f"({n} : {t})" for n, t in self.params) + f" (oof : {self.ret}) : Nat → "
-                + " → ".join(LEAN_TY[types[d]] for d in state) + f" → {self.ret}",
-                "  | 0, " + ", ".join("_" for _ in state) + " => oof"]
+        if not legacy:
+            # drop the components of the state that nothing reads (temporaries of one iteration, dead stores)
+            body = self.prune(body)
+            keep = []
+            while True:
+                need = uses(self.keep_again(body, keep))
+                more = [j for j, d in enumerate(state) if ids[d] in need and j not in keep]
+                if not more:
+                    break
+                keep = sorted(keep + more)
+            body = self.keep_again(body, keep)
+            state = [state[j] for j in keep]
+        head = [f"def {name} " + " ".join(f"({n} : {t})" for n, t in self.params) + f" (oof : {self.ret}) : Nat"
+                + "".join(" → " + LEAN_TY[types[d]] for d in state) + f" → {self.ret}",
+                "  | 0" + "".join(", _" for _ in state) + " => oof"]
         self.aux.append((head, [ids[d] for d in state], body))
         args = [self.coerce(env[d].ir, env[d].type, types[d]) if d in env else DEFAULT_IR[types[d]] for d in state]
-        oof = {"optint": "(none : Option Nat)", "optbool": "(none : Option Bool)", "optlist": "(none : Option (List Nat))",
-               "int": "0", "bool": "false", "list": "([] : List Nat)"}[self.ret_tag()]
+        if self.mutates or self.ghosts or self.raises:
+            oof = f"(default : {self.ret})"
+        else:
+            oof = {"optint": "(none : Option Nat)", "optbool": "(none : Option Bool)", "optlist": "(none : Option (List Nat))",
+                   "int": "0", "bool": "false", "list": "([] : List Nat)"}[self.ret_tag()]
         return ("app", f"{name} {pargs} {oof} ({self.fuel})", args)
+
+    def keep_again(self, body, keep):
+        """the body of a `while` loop with only the components `keep` of the state passed on by its recursive calls"""
+        t = body[0]
+        if t == "again":
+            return ("again", body[1], [body[2][j] for j in keep])
+        if t == "ite":
+            return mk_ite(body[1], self.keep_again(body[2], keep), self.keep_again(body[3], keep))
+        if t == "mopt":
+            return body[:3] + (self.keep_again(body[3], keep), self.keep_again(body[4], keep))
+        if t == "mexc":
+            return body[:3] + (self.keep_again(body[3], keep), body[4], self.keep_again(body[5], keep))
+        if t in ("letfold", "letloop"):        # (a recursive call cannot occur inside the body of an inner loop)
+            return body[:8] + (self.keep_again(body[8], keep),) + body[9:]
+        return body
 
     leaf = None
 
@@ -1992,6 +3057,9 @@ class Fn:
     def translate(self):
         if isinstance(self.obj, _Missing):
             raise Unsupported(f"{self.obj.path} does not exist in the source")
+        for g in self.depends:
+            if g.failed or isinstance(g.obj, _Missing):
+                raise Unsupported(f"the function {g.name}, which the configuration of this one uses, is not translatable")
         src = textwrap.dedent(inspect.getsource(unwrap_fn(self.obj)))
         return self.render(self.term(ast.parse(src).body[0]))
 
@@ -2014,38 +3082,54 @@ class Fn:
         for a in fn.args.args:
             if a.arg != "self" and a.arg not in env:
                 raise Unsupported(f"parameter {a.arg} is not configured")
+        fn = copy.deepcopy(fn)                 # (read-only aliases are resolved in place)
+        self.helper_cache, self.memo = {}, {}
+        self.retk, self.in_helper, self.frozen, self.scope, self.inlining, self.assigning = None, False, set(), None, [], []
+        self.resolve_aliases(fn)
+        # the helper methods (of the same class, not named by the configuration) that the function uses, directly or through
+        # each other: their statements are translated where they are called, so what is found by looking at the statements of
+        # the function (the names that are changed in place, the statements that follow a statement, ...) is found in them too
+        helpers = self.collect_helpers(fn)
+        nodes = [x for f in [fn] + [h.fn for h in helpers] for x in ast.walk(f)]
         self.order = self.assigned(fn.body)
+        for h in helpers:
+            self.order += [d for d in self.assigned(h.fn.body) if d not in self.order]
         self.order = [d for d in self.mutates if d in self.order] + [d for d in self.order if d not in self.mutates]
-        self.loop_targets = {x.target.id for x in ast.walk(fn) if isinstance(x, ast.For) and isinstance(x.target, ast.Name)}
-        self.appends = any(isinstance(x, ast.Call) and (dotted(x.func) or "").endswith((".append", ".clear")) for x in ast.walk(fn))
+        self.loop_targets = {x.target.id for x in nodes if isinstance(x, ast.For) and isinstance(x.target, ast.Name)}
+        self.appends = any(isinstance(x, ast.Call) and (dotted(x.func) or "").endswith((".append", ".clear", ".extend")) for x in nodes)
+        self.cur_stmt = None
         # the lists that are changed in place: a second name for one of them is rejected (every group of names for one
         # list that holds such a name is formed by an assignment that mentions it)
-        self.appended = {dotted(x.func).rsplit(".", 1)[0] for x in ast.walk(fn)
-                         if isinstance(x, ast.Call) and (dotted(x.func) or "").endswith((".append", ".clear"))}
-        if any(isinstance(x, ast.Call) and dotted(x.func) in self.selfcalls for x in ast.walk(fn)):
+        self.appended = {dotted(x.func).rsplit(".", 1)[0] for x in nodes
+                         if isinstance(x, ast.Call) and (dotted(x.func) or "").endswith((".append", ".clear", ".extend"))}
+        self.appended |= {dotted(x.target) for x in nodes if isinstance(x, ast.AugAssign) and isinstance(x.op, ast.Add) and dotted(x.target)}
+        self.appended |= {dotted(self.del_prefix(x)[0]) for x in nodes if self.del_prefix(x) is not None}
+        if any(isinstance(x, ast.Call) and dotted(x.func) in self.selfcalls for x in nodes):
             self.appended |= {d for d, (_, t) in self.mutates.items() if elem_type(t) is not None}      # (by a callee)
         # may an object be changed in place (by a method of it, or by another method of `self`)?
         muts = {"." + m for ms in self.objmethods.values() for m, sig in ms.items() if sig[2].startswith("mut")}
         self.inplace = any(isinstance(x, ast.Call) and ((dotted(x.func) or "") in self.selfcalls or (dotted(x.func) or "").endswith(tuple(muts) or ("\0",)))
-                           for x in ast.walk(fn))
+                           for x in nodes)
         self.cx = Cx((), None, None, None)
         self.detached, self.mutloops, self.positive, self.readonly_items = {}, [], [], []
         self.following = {}                    # id of a statement -> the statements after it in its block
-        for x in ast.walk(fn):
+        for x in nodes:
             for field in ("body", "orelse", "finalbody"):
                 blk = getattr(x, field, None)
                 if isinstance(blk, list):
                     for j, y in enumerate(blk):
                         self.following[id(y)] = blk[j + 1:]
-        if any(isinstance(x, ast.Name) and x.id == "_" and isinstance(x.ctx, ast.Load) for x in ast.walk(fn)):
+        if any(isinstance(x, ast.Name) and x.id == "_" and isinstance(x.ctx, ast.Load) for x in nodes):
             raise Unsupported("the name _ is read")
-        if sum(isinstance(x, ast.Try) for x in ast.walk(fn)) > 1:
+        if sum(isinstance(x, ast.Try) for x in nodes) > 1:
             raise Unsupported("more than one try statement (the configured except clause stands for one)")
         for f in self.once:
             sites = [x for x in ast.walk(fn) if isinstance(x, (ast.Call, ast.Attribute)) and dotted(x) == f]
             loops = [y for x in ast.walk(fn) if isinstance(x, (ast.For, ast.While)) for y in ast.walk(x) if dotted(y) == f]
             if len(sites) > 1 or loops:
                 raise Unsupported(f"{f} is used more than once")
+            if any(dotted(x) == f for h in helpers for x in ast.walk(h.fn)):
+                raise Unsupported(f"{f} (to be used once) is used in a helper method")
 
         def end(e):
             if self.mutates or self.ghosts:
@@ -2075,7 +3159,7 @@ class Fn:
                 taken.add(n)
                 names[i] = n if i in ub else "_" + n
             self.name_binders(body, taken, names)
-            out.append("\n".join(head + ["  | fuel + 1, " + ", ".join(names[i] for i in ids) + " =>"] + self.lines(body, names, 2)))
+            out.append("\n".join(head + ["  | fuel + 1" + "".join(", " + names[i] for i in ids) + " =>"] + self.lines(body, names, 2)))
         names = {}
         self.name_binders(ir, taken, names)
         head = f"def {self.name} " + (self.tparams + " " if self.tparams else "") + " ".join(f"({n} : {t})" for n, t in self.params) + f" : {self.ret} :="
@@ -2134,7 +3218,7 @@ def generate(han):
            mapping=hdr),
         # header: addresses (`while True` loop; fuel len(frame) + 1, proved never to run out)
         Fn("hdlcGetAddress", H._get_address, [("data", "List Nat"), ("position", "Nat")], "Option (List Nat)",
-           mapping={**frame, "position": ("position", "int")}, fuel="(data).length + 1"),
+           mapping={**frame, "position": ("position", "int")}, fuel="(data).length + 1", loop_state="all"),
         Fn("hdlcDestinationAddress", unwrap_fn(H.destination_address), [("data", "List Nat")], "Option (List Nat)", mapping=frame, callfns=adr),
         Fn("hdlcSourceAddress", unwrap_fn(H.source_address), [("data", "List Nat")], "Option (List Nat)", mapping=frame, callfns=adr,
            calls={"self.destination_address": ("(hdlcDestinationAddress data)", "optlist")}),
@@ -2179,6 +3263,8 @@ def generate(han):
         "as_bytes": ("Frame.data", [], "list"), "frame_check_sequence": ("Frame.fcsField", [], "optint"),
         "payload": ("Frame.payload", [], "optlist"), "MAX_FRAME_LENGTH": ("const:Amshan.Gen.maxFrameLen", [], "int")}},
         constructors={"HdlcFrame": ("Frame.empty", "frame")}, record=("Core", "s"), mutates=core)
+    if not isinstance(getattr(HF, "__bool__"), _Missing):      # a frame with __bool__: its truth value is not its length
+        robj["objmethods"]["frame"]["__bool__"] = ("", [], "bool")
     trim = {"self._buffer.trim_buffer_to_flag_or_end": "trimmed"}
     r_append = Fn("hdlcAppendToFrame", R._append_to_frame, [("cfg", "Cfg"), ("s", "Core"), ("current", "Nat")], "Core",
                   mapping={**rcfg, "current": ("current", "int")}, **robj)
@@ -2191,6 +3277,76 @@ def generate(han):
                 ghosts=["trimmed"], effects=trim, pyret="bool", selfcalls={**rcalls, "self._handle_flag_sequence": r_flag},
                 calls={"self._buffer.pop": ("octet", "int")}, once=["self._buffer.pop"], **robj)
     reader = [r_append, r_start, r_hunt, r_flag, r_next]
+    # ---- the input buffer of the HDLC reader (class _ReaderBuffer of han/hdlc.py) and HdlcFrameReader.read(data_chunk).
+    # The buffer object is the record PyBuf of its two attributes (_buffer: the bytearray as a list, _buffer_pos); its
+    # methods are state-passing functions on it.  For `read`, `self` is the record PyReader: the attributes of Core and
+    # `_buffer`, an object whose methods are the GENERATED definitions of the buffer methods.  The five methods of the
+    # state machine are translated a second time against this record (hdlcRd..): there `self._buffer.pop()` and
+    # `self._buffer.trim_buffer_to_flag_or_end()` are calls of the translated buffer methods, in source order (the first
+    # translation, on Core, takes the popped octet as a parameter and records the trimming in a flag).
+    register_object("hbuf", "PyBuf")
+    B = hdlc._ReaderBuffer
+    bufst = dict(record=("PyBuf", "b"), mutates={"self._buffer": ("buffer", "list"), "self._buffer_pos": ("pos", "int")})
+    bflag = {"HdlcFrameReader.FLAG_SEQUENCE": ("Amshan.Gen.flagOctet", "int")}
+    b_avail = Fn("hdlcBufIsAvailable", unwrap_fn(B.is_available), [("b", "PyBuf")], "Bool",
+                 mapping={"self._buffer": ("b.buffer", "list"), "self._buffer_pos": ("b.pos", "int")})
+    b_pop = Fn("hdlcBufPop", B.pop, [("b", "PyBuf")], "PyBuf × Nat", pyret="int", **bufst)
+    b_extend = Fn("hdlcBufExtend", B.extend, [("b", "PyBuf"), ("chunk", "List Nat")], "PyBuf", mapping={"data_chunk": ("chunk", "list")}, **bufst)
+    b_trimpos = Fn("hdlcBufTrimToPos", B.trim_buffer_to_current_position, [("b", "PyBuf")], "PyBuf", **bufst)
+    b_trimflag = Fn("hdlcBufTrimToFlagOrEnd", B.trim_buffer_to_flag_or_end, [("b", "PyBuf")], "PyBuf", mapping=bflag,
+                    selfcalls={"self.trim_buffer_to_current_position": b_trimpos}, **bufst)
+    hbufs = [b_avail, b_pop, b_extend, b_trimpos, b_trimflag]
+    bufm = {"hbuf": {"is_available": ("hdlcBufIsAvailable", [], "bool"), "pop": ("hdlcBufPop", [], "mut:int"),
+                     "extend": ("hdlcBufExtend", ["list"], "mut"), "trim_buffer_to_current_position": ("hdlcBufTrimToPos", [], "mut"),
+                     "trim_buffer_to_flag_or_end": ("hdlcBufTrimToFlagOrEnd", [], "mut")}}
+    qobj = dict(objmethods={**robj["objmethods"], **bufm}, constructors=robj["constructors"], record=("PyReader", "r"),
+                mutates={**core, "self._buffer": ("buf", "hbuf")}, depends=hbufs, inline={"self.is_in_hunt_mode": R.is_in_hunt_mode})
+    q_append = Fn("hdlcRdAppendToFrame", R._append_to_frame, [("cfg", "Cfg"), ("r", "PyReader"), ("current", "Nat")], "PyReader",
+                  mapping={**rcfg, "current": ("current", "int")}, **qobj)
+    q_start = Fn("hdlcRdStartFrame", R._start_frame, [("r", "PyReader")], "PyReader", mapping=rcfg, **qobj)
+    q_hunt = Fn("hdlcRdGotoHuntMode", R._goto_hunt_mode, [("r", "PyReader")], "PyReader", mapping=rcfg, **qobj)
+    qcalls = {"self._append_to_frame": q_append, "self._start_frame": q_start, "self._goto_hunt_mode": q_hunt}
+    q_flag = Fn("hdlcRdHandleFlagSequence", R._handle_flag_sequence, [("cfg", "Cfg"), ("r", "PyReader")], "PyReader × Bool", mapping=rcfg,
+                pyret="bool", selfcalls=qcalls, **qobj)
+    q_next = Fn("hdlcRdReadNext", R._read_next, [("cfg", "Cfg"), ("r", "PyReader")], "PyReader × Bool", mapping=rcfg,
+                pyret="bool", selfcalls={**qcalls, "self._handle_flag_sequence": q_flag}, **qobj)
+    # `read`: the `while self._buffer.is_available:` loop is a recursion on fuel; the fuel granted is the number of octets
+    # in the buffer after `extend` (an upper bound of the unread octets when the loop starts) + 1
+    q_read = Fn("hdlcRdRead", R.read, [("cfg", "Cfg"), ("r", "PyReader"), ("chunk", "List Nat")], "PyReader × List Frame",
+                mapping={**rcfg, "data_chunk": ("chunk", "list")}, pyret="list:frame", fuel="r.buf.buffer.length + chunk.length + 1",
+                selfcalls={"self._read_next": q_next, "self._start_frame": q_start}, **qobj)
+    hread = hbufs + [q_append, q_start, q_hunt, q_flag, q_next, q_read]
+    # ---- the line buffer of the P1 reader (class _ReaderBuffer of han/dlde.py) and ModeDReader.read(data_chunk).
+    # The buffer is the record PyBuf again (with the methods of THIS class); `self` of the reader is the record P1PyReader
+    # (_buffer, _raw_data, _is_int_hunt_mode).  Opaque: `DataReadout(raw)` is the model's `Readout.make` (it may raise: a
+    # statement of its own), `Ident.is_ident_line(text)` is `P1.isIdentLine`, `line.isascii()` is `Py.isAscii`,
+    # `line.decode("ascii")` gives the code points (total: python raises on a non-ASCII octet; the source tests
+    # `isascii()` first, and the theorem needs that guard).  `read` answers `Except PyExc (state, readouts)`.
+    register_object("pbuf", "PyBuf")
+    register_object("readout", "Readout")
+    PB, MR = dlde._ReaderBuffer, dlde.ModeDReader
+    pconst = {"LF_CHARACTER": ("Amshan.Gen.p1Lf", "int"), "START_CHARACTER_HEX": ("Amshan.Gen.p1Start", "int"),
+              "END_CHARACTER_HEX": ("Amshan.Gen.p1End", "int")}
+    p_len = Fn("p1BufLen", PB.__len__, [("b", "PyBuf")], "Nat", mapping={"self._buffer": ("b.buffer", "list"), "self._buffer_pos": ("b.pos", "int")})
+    p_pop = Fn("p1BufPop", PB.pop, [("b", "PyBuf")], "PyBuf × Option (List Nat)", pyret="optlist", calls=pconst, **bufst)
+    p_extend = Fn("p1BufExtend", PB.extend, [("b", "PyBuf"), ("chunk", "List Nat")], "PyBuf", mapping={"data_chunk": ("chunk", "list")}, **bufst)
+    p_clear = Fn("p1BufClear", PB.clear, [("b", "PyBuf")], "PyBuf", **bufst)
+    p_trimpos = Fn("p1BufTrimToPos", PB.trim_buffer_to_current_position, [("b", "PyBuf")], "PyBuf", **bufst)
+    p_trimflag = Fn("p1BufTrimToFlagOrEnd", PB.trim_buffer_to_flag_or_end, [("b", "PyBuf")], "PyBuf", calls=pconst,
+                    selfcalls={"self.trim_buffer_to_current_position": p_trimpos}, **bufst)
+    pbufs = [p_len, p_pop, p_extend, p_clear, p_trimpos, p_trimflag]
+    pbufm = {"pbuf": {"__len__": ("p1BufLen", [], "int"), "pop": ("p1BufPop", [], "mut:optlist"), "extend": ("p1BufExtend", ["list"], "mut"),
+                      "clear": ("p1BufClear", [], "mut"), "trim_buffer_to_current_position": ("p1BufTrimToPos", [], "mut"),
+                      "trim_buffer_to_flag_or_end": ("p1BufTrimToFlagOrEnd", [], "mut")}}
+    p_read = Fn("p1RdRead", MR.read, [("r", "P1PyReader"), ("chunk", "List Nat")], "Except PyExc (P1PyReader × List Readout)",
+                mapping={"data_chunk": ("chunk", "list")}, calls=pconst, pyret="list:readout", raises=True, record=("P1PyReader", "r"),
+                mutates={"self._buffer": ("buf", "pbuf"), "self._raw_data": ("raw", "list"), "self._is_int_hunt_mode": ("hunt", "bool")},
+                objmethods=pbufm, depends=pbufs, inline={"self.is_in_hunt_mode": MR.is_in_hunt_mode},
+                raisefns={"DataReadout": ("Readout.make", ["list"], "readout")},
+                callfns={"Ident.is_ident_line": ("isIdentLine", ["text"], "bool")},
+                listmethods={"isascii": ("Amshan.Py.isAscii", [], "bool"), "decode": ("Amshan.GenRt.decodeAscii", ["'ascii'"], "text")},
+                fuel="r.buf.buffer.length + chunk.length + 1")
+    p1read = pbufs + [p_read]
     # ---- AutoDecoder: the rotation over the decoder table.  Generic like the model: the table is the parameter `decs`
     # (opaque callables α → Except PyExc β: `decoder(payload)` may raise), the except clause is the parameter `caught`
     # (its class list is data: Gen.caughtPayload), `self.__previous_success` is the state (its value on entry: prev0).
@@ -2232,9 +3388,11 @@ def generate(han):
                 mapping={"message": ("message", "msg")}, ghosts=[("queue", "list:msg")], effects={"self.queue.put_nowait": "queue"}, objmethods=pobj),
              Fn("protoPayloadReceived", mc.SmartMeterMessagePayloadProtocol.message_received, [("message", "Msg")], "List (List Nat)",
                 mapping={"message": ("message", "msg")}, ghosts=[("queue", "list:list")], effects={"self.queue.put_nowait": "queue"}, objmethods=pobj)]
-    groups = {"Fcs": fns[0:5], "BackOff": fns[5:9], "P1": fns[9:10], "Hdlc": fns[10:], "HdlcReader": reader, "Auto": auto, "Proto": proto}
+    groups = {"Fcs": fns[0:5], "BackOff": fns[5:9], "P1": fns[9:10], "Hdlc": fns[10:], "HdlcReader": reader, "HdlcRead": hread, "P1Read": p1read, "Auto": auto, "Proto": proto}
     # what a group's file needs besides Amshan.Generated: (imports, lines after `namespace Amshan.GenCode`)
     extra = {"HdlcReader": (["import Amshan.Model.Hdlc"], ["open Amshan.Hdlc", ""]),
+             "HdlcRead": (["import Amshan.GenRuntime", "import Amshan.GenReaderState"], ["open Amshan.Hdlc", ""]),
+             "P1Read": (["import Amshan.GenRuntime", "import Amshan.GenReaderState"], ["open Amshan.P1", ""]),
              "Auto": (["import Amshan.GenRuntime", "import Amshan.Model.AutoDecoder"], []),
              "Proto": (["import Amshan.GenRuntime", "import Amshan.Model.ProtocolState"], ["open Amshan.Proto", ""])}
     problems = []
